@@ -5,32 +5,41 @@ import ast
 from ..rulekit import *
 from ..norm import Normalizer, Poly
 from ..exc import EscapeAnalysis
+from . import _kit_c11 as kit
 
 R = Rules(
     "C11",
     explanation=(
         "Structural clauses of OSCORE (RFC 8613) protection decided on the syntax trees of aiocoap/oscore.py "
-        "(the module cannot be imported here: cbor2/cryptography are absent).  C11.a: reaching definitions of "
+        "(the module cannot be imported here: cbor2/cryptography are absent).  Two mechanisms local to this module are used besides the "
+        "engine: reaching definitions / source tracing (`Flow`, path-sensitive where the function is loop-free) and a path-wise symbolic "
+        "executor (`_kit_c11.Runner`: every local is replaced by its value over the entry state along each feasible path, one decision per "
+        "normalised condition; maps of COSE header fields and the bytes of the OSCORE option are modelled as finite-domain objects).  "
+        "C11.a: reaching definitions of "
         "every value stored into the outer message (constructor keywords in _split_message, later attribute "
         "stores and mutating calls in _split_message/protect) are enumerated and compared with an allow-list of "
         "sources (fixed outer codes, Uri-Host, Observe, the origin of the Proxy-Uri, _compress output whose "
         "third argument is the result of alg_symmetric.encrypt, the encrypted signature, direction and transport "
         "tuning); nothing derived from the plaintext or from other parts of the inner message reaches an outer "
-        "store except through encrypt.  C11.b: the external AAD array carries request_id.kid/partial_iv, the "
-        "nonce inputs of a response without PIV are the request's, a reused nonce comes from "
-        "get_reusable_kid_and_piv which clears the reuse flag.  C11.c: the nonce layout extracted from "
-        "_construct_nonce equals RFC 8613 section 5.2.  C11.d: the writer layout of _compress, the reader "
-        "layout of _uncompress and the RFC 8613 section 6.1 table agree; reserved bits are refused.  C11.e: the "
+        "store except through encrypt; the outer code is POST / FETCH / the request's response style on exactly the paths RFC 8613 says.  "
+        "C11.b: the external AAD array carries request_id.kid/partial_iv, on every path of unprotect that reaches decrypt the "
+        "nonce inputs are the message's own when it carries a partial IV and the request's otherwise, a reused nonce comes from "
+        "get_reusable_kid_and_piv which clears the reuse flag on every path that hands out a pair.  C11.c: the nonce value returned by "
+        "_construct_nonce equals RFC 8613 section 5.2; a fresh partial IV is the 5-byte big-endian sequence number, sent without leading zeros.  "
+        "C11.d: on every path of _compress the option emitted equals the RFC 8613 section 6.1 encoding of exactly the fields present, on "
+        "every returning path of _uncompress the fields returned are exactly the windows of the option the flag bits announce; reserved bits are refused.  C11.e: the "
         "exception-escape set of _extract_encrypted0/_uncompress and of the raising sites of unprotect before "
-        "decryption is inside ProtectionInvalid + NotAProtectedMessage.  C11.f: KID / KID-context comparison and "
-        "the length check dominate decrypt, decrypt failures always propagate, every return is dominated by "
-        "decrypt.  C11.g: every AEAD wrapper maps InvalidTag to ProtectionInvalid.  Not decided: cryptographic "
+        "decryption is inside ProtectionInvalid + NotAProtectedMessage.  C11.f: on every feasible path to decrypt a present KID / KID context was compared "
+        "equal and the length of what is decrypted was checked, decrypt failures always propagate, every return is dominated by "
+        "decrypt.  C11.g: every AEAD wrapper maps InvalidTag to ProtectionInvalid.  C11.h: request identifiers keep kid / partial IV verbatim; every "
+        "bounded field cut out of the option is preceded by a check that the option is long enough.  Not decided: cryptographic "
         "strength, value-level equality of the round trip, implicit flows through branch conditions, callees of "
         "unprotect other than _extract_encrypted0 (their escape sets are listed as notes only), the "
-        "deterministic-request override of _get_sender_key."
+        "deterministic-request override of _get_sender_key.  Assumed by the map model: the values of COSE header maps are never None."
     ),
-    rule_text="reaching definitions / source allow-lists on per-function CFGs, dominance and must-not-reach-exit rules, "
-              "exception-escape sets, layout normal forms compared with RFC 8613 reference tables, class-hierarchy facts",
+    rule_text="reaching definitions / source allow-lists on per-function CFGs, path-wise symbolic execution with finite-domain models of the option bytes "
+              "and the COSE header maps, dominance and must-not-reach-exit rules, exception-escape sets, polynomial normal forms compared with RFC 8613 "
+              "reference encodings, class-hierarchy facts",
 )
 
 CP = "oscore.CanProtect."
@@ -62,14 +71,22 @@ class Def:
 
 
 class Flow:
-    def __init__(self, prog, fi, sanitisers=(), opaque_self_calls=()):
+    def __init__(self, prog, fi, sanitisers=(), opaque_self_calls=(), path_sensitive=False):
+        """path_sensitive: a definition reaches a use only along a *feasible* normal-flow path (kit.Runner: one decision per
+        normalised condition over the entry state, constant conditions folded), i.e. `x = None` under `if p is None` does not
+        reach a use under `if p is not None`.  Only for loop-free functions; statements that are on no enumerated path
+        (exception handlers) keep the plain data-flow answer."""
         self.prog = prog
         self.fi = fi
         self.cfg = cfg_of(fi)
+        self.rpaths = None
+        if path_sensitive and not any(n.kind == "for" or (n.kind == "join" and n.label == "while") for n in self.cfg.nodes):
+            self.rpaths = [q.nodes for q in kit.Runner(fi, prog, fork_values=False).paths()]
         self.sanitisers = set(sanitisers)
         self.opaque_self_calls = set(opaque_self_calls)
         self.defs = []
         self.at = {}
+        self._feasible = {}
         self.stores = []  # (rootname, path, value or call, nid, stmt, kind)
         a = fi.node.args
         self.params_all = [x.arg for x in a.posonlyargs + a.args + a.kwonlyargs]
@@ -166,7 +183,26 @@ class Flow:
                         work.append(s)
 
     def reaching(self, name, nid):
-        return [self.defs[d] for d in sorted(self.IN[nid]) if self.defs[d].name == name]
+        defs = [self.defs[d] for d in sorted(self.IN[nid]) if self.defs[d].name == name]
+        if self.rpaths is None or len(defs) < 2:
+            return defs
+        key = (name, nid)
+        if key not in self._feasible:
+            allowed, seen = set(), False
+            for nodes in self.rpaths:
+                for i, m in enumerate(nodes):
+                    if m != nid:
+                        continue
+                    seen = True
+                    for j in range(i - 1, -1, -1):
+                        if any(self.defs[d].name == name for d in self.at.get(nodes[j], ())):
+                            allowed.add(nodes[j])
+                            break
+            self._feasible[key] = allowed if seen else None
+        allowed = self._feasible[key]
+        if allowed is None:
+            return defs
+        return [d for d in defs if d.nid in allowed]
 
     def node_of(self, astnode):
         return self.cfg.loc1(astnode)
@@ -394,6 +430,33 @@ def qn(prog, fi, e):
     return prog.resolve_in_module(fi.module, c) if c else None
 
 
+def self_calls(fi, name):
+    """calls `self.<name>(...)` / `cls.<name>(...)` in the function, however the arguments are spelled"""
+    return [c for c in walk_no_nested(fi.node) if isinstance(c, ast.Call) and chain(c.func) in ("self." + name, "cls." + name)]
+
+
+def bound_args(prog, call, callee_short):
+    """The arguments of `call` as a list in the order of the callee's parameters (positional arguments first, then keywords
+    matched by parameter name): `f(a, b, c)`, `f(a, b, c=c)` and `f(c=c, a=a, b=b)` are the same call.  None when the call uses
+    * / ** or a keyword that is not a positional parameter of the callee (keyword-only arguments are returned separately)."""
+    names = params(prog.func(callee_short))
+    out = list(call.args)
+    if any(isinstance(a, ast.Starred) for a in out) or any(k.arg is None for k in call.keywords) or len(out) > len(names):
+        return None, {}
+    kw = {k.arg: k.value for k in call.keywords}
+    for n in names[len(out):]:
+        if n not in kw:
+            break
+        out.append(kw.pop(n))
+    if any(k in names for k in kw):
+        return None, {}
+    return out, kw
+
+
+ALG_DECRYPT = "oscore.AES_CCM.decrypt"  # signature of SymmetricEncryptionAlgorithm.decrypt(ciphertext_and_tag, aad, key, iv)
+ALG_ENCRYPT = "oscore.AES_CCM.encrypt"  # ... and encrypt(plaintext, aad, key, iv)
+
+
 def module_int_consts(prog, modshort):
     env = {}
     for st in prog.module(modshort).tree.body:
@@ -509,7 +572,7 @@ def a(ctx):
     pn = params(fi)
     ctx.need(len(pn) == 2, "_split_message signature changed")
     msg, rid = pn
-    fl = Flow(prog, fi)
+    fl = Flow(prog, fi, path_sensitive=True)
     cfg = fl.cfg
     ctors = [c for c in walk_no_nested(fi.node) if isinstance(c, ast.Call) and qn(prog, fi, c.func) == MSGCLS]
     ctx.floor("Message(...) constructions in _split_message", len(ctors), 1)
@@ -529,37 +592,70 @@ def a(ctx):
         ctx.ob("the plaintext is built only from the cleared copy of the message", not bad and any(l[0] == ("param", msg) for l in inner), fi, r,
                detail="sources: %s" % fmt_leaves(inner))
     seen_codes = set()
+    # A constructor keyword (`Message(uri_host=h)`) and a later store on the constructed message (`m.opt.uri_host = h`, `m.code = c`)
+    # are the same fact: both are checked against the same allow-list of sources.
+    KW_OF_PATH = {".code": "code", ".opt.uri_host": "uri_host", ".opt.observe": "observe"}
+
+    def check_outer_field(name, value, nid, node, construct):
+        leaves = fl.src(value, nid)
+        bad = [l for l in leaves if _canon(l, pn) not in OUTER_KW[name]]
+        ctx.ob("outer %s comes only from its allowed sources" % name, not bad, fi, node, detail="sources: %s" % fmt_leaves(leaves), construct=construct)
+
     for c in ctors:
         nid = fl.node_of(c)
-        extra = [kw.arg or "**" for kw in c.keywords if kw.arg not in OUTER_KW]
+        # direction / transport_tuning as constructor keywords are the stores protect() otherwise makes on the outer message
+        STORE_KW = {"direction": ".direction", "transport_tuning": ".transport_tuning"}
+        extra = [kw.arg or "**" for kw in c.keywords if kw.arg not in OUTER_KW and kw.arg not in STORE_KW]
         ctx.ob("the outer Message is constructed from code, uri_host and observe only", not c.args and not extra, fi, c,
                detail="extra arguments: %s" % ", ".join(extra + ["positional"] * len(c.args)))
         for kw in c.keywords:
-            if kw.arg not in OUTER_KW:
-                continue
-            leaves = fl.src(kw.value, nid)
-            bad = [l for l in leaves if _canon(l, pn) not in OUTER_KW[kw.arg]]
-            ctx.ob("outer %s comes only from its allowed sources" % kw.arg, not bad, fi, c, detail="sources: %s" % fmt_leaves(leaves),
-                   construct="Message(%s=%s)" % (kw.arg, stmt_text(kw.value, 80)))
-            if kw.arg == "code":
-                for t, tn, conds in fl.terminals(kw.value, nid):
-                    q = qn(prog, fi, t) if isinstance(t, ast.AST) else None
-                    if q == "aiocoap.numbers.codes.POST":
-                        seen_codes.add("POST")
-                        okc = is_request_cond(fi.node, conds, msg) is True and cond_has(fi.node, conds, "%s.opt.observe is None" % msg, True) is not None
-                        ctx.ob("outer code POST is chosen exactly for requests without Observe", okc, fi, t)
-                    elif q == "aiocoap.numbers.codes.FETCH":
-                        seen_codes.add("FETCH")
-                        okc = is_request_cond(fi.node, conds, msg) is True and cond_has(fi.node, conds, "%s.opt.observe is None" % msg, False) is not None
-                        ctx.ob("outer code FETCH is chosen exactly for requests with Observe", okc, fi, t)
-                    elif isinstance(t, ast.AST) and chain(t) == "%s.code_style.response" % rid:
-                        seen_codes.add("RESP")
-                        ctx.ob("the outer response code is the request's code style and is used only for responses", is_request_cond(fi.node, conds, msg) is False, fi, t)
-    ctx.ob("outer codes POST, FETCH and the request's response style are all present", seen_codes == {"POST", "FETCH", "RESP"}, fi, ctors[0],
-           detail="found %s" % sorted(seen_codes), construct="outer code table")
+            if kw.arg in OUTER_KW:
+                check_outer_field(kw.arg, kw.value, nid, c, "Message(%s=%s)" % (kw.arg, stmt_text(kw.value, 80)))
+            elif kw.arg in STORE_KW:
+                _check_store(ctx, fl, fi, pn, msg, STORE_KW[kw.arg], kw.value, nid, c)
     stores, calls, passed = _outer_uses(fl, is_ctor_leaf)
     for path, val, nid, stmt in stores:
-        _check_store(ctx, fl, fi, pn, msg, path, val, nid, stmt)
+        if path in KW_OF_PATH:
+            check_outer_field(KW_OF_PATH[path], val, nid, stmt, "Message(%s=%s)" % (KW_OF_PATH[path], stmt_text(val, 80)))
+        else:
+            _check_store(ctx, fl, fi, pn, msg, path, val, nid, stmt)
+    # The outer code table is decided per feasible path (kit.Runner): the code the constructed outer message ends up with (constructor
+    # keyword, or a later store to .code) against what the path decided about the message: request without Observe -> POST, request
+    # with Observe -> FETCH, response -> the request's code style.  Default-then-overwrite, conditional expressions, swapped arms,
+    # a named `is_request` are the same paths.
+    bad_code = {"POST": [], "FETCH": [], "RESP": [], "other": []}
+    for q in [q for q in kit.Runner(fi, prog).paths() if q.end == "return"]:
+        v = q.value
+        if not (isinstance(v, ast.Tuple) and len(v.elts) == 2):
+            continue
+        om = v.elts[0]
+        if not (isinstance(om, ast.Call) and qn(prog, fi, om.func) == MSGCLS):
+            continue  # reported by the obligation on the returned value above
+        code = next((k.value for k in om.keywords if k.arg == "code"), None)
+        for ev in q.events:
+            if ev[0] == "store" and isinstance(ev[1], ast.Attribute) and ev[1].attr == "code" and ev[1].value is om:
+                code = ev[2]
+        isreq = obs_none = None
+        for cnd, out, _ in q.conds:
+            if match("%s.code.is_request()" % msg, cnd) is not None:
+                isreq = out
+            elif match("%s.code.is_response()" % msg, cnd) is not None and isreq is None:
+                isreq = not out
+            elif isinstance(cnd, ast.Compare) and len(cnd.ops) == 1 and isinstance(cnd.ops[0], (ast.Is, ast.IsNot, ast.Eq, ast.NotEq)):
+                l, r = cnd.left, cnd.comparators[0]
+                if (chain(l) == "%s.opt.observe" % msg and _is_none_const(r)) or (chain(r) == "%s.opt.observe" % msg and _is_none_const(l)):
+                    obs_none = out == isinstance(cnd.ops[0], (ast.Is, ast.Eq))
+        cq = qn(prog, fi, code) if code is not None and chain(code) else None
+        kind = {"aiocoap.numbers.codes.POST": "POST", "aiocoap.numbers.codes.FETCH": "FETCH"}.get(cq) or ("RESP" if code is not None and chain(code) == "%s.code_style.response" % rid else "other")
+        want = ("POST" if obs_none is True else "FETCH" if obs_none is False else "POST or FETCH by Observe, which is not decided") if isreq is True else ("RESP" if isreq is False else "undecided")
+        seen_codes.add(kind)
+        if kind != want:
+            bad_code[kind].append((q, "outer code %s where %s is due [%s]" % (kit.txt(code)[:40] if code is not None else None, want, _describe(q))))
+    for kind, text in (("POST", "outer code POST is chosen exactly for requests without Observe"), ("FETCH", "outer code FETCH is chosen exactly for requests with Observe"),
+                       ("RESP", "the outer response code is the request's code style and is used only for responses"), ("other", "the outer code is POST, FETCH or the request's response style")):
+        ctx.ob(text, not bad_code[kind], fi, (bad_code[kind][0][0].endnode if bad_code[kind] else ctors[0]), detail=_first(bad_code[kind]), construct="outer code table: %s" % kind)
+    ctx.ob("outer codes POST, FETCH and the request's response style are all present", seen_codes == {"POST", "FETCH", "RESP"}, fi, ctors[0],
+           detail="found %s" % sorted(seen_codes), construct="outer code table")
     for path, c, nid in calls:
         args = list(c.args) + [kw.value for kw in c.keywords]
         if not args:
@@ -586,6 +682,21 @@ def a(ctx):
             continue
         nreq += 1
         cleared = {kw.arg for kw in c.keywords if isinstance(kw.value, ast.Constant) and kw.value.value is None}
+        # Message.copy(**kw) assigns every keyword to the copy's options after copying, so `copy(uri_host=None)` and
+        # `x = copy(); x.opt.uri_host = None` (or `del x.opt.uri_host`) are the same fact, provided the store is on every
+        # normal path from the copy to the exit (cfg.must_pass).
+        cn = fl.node_of(c)
+        holders = {d.name for d in fl.defs if d.value is c and d.kind == "assign"}
+        for root, path, val, snid, stmt, kind in fl.stores:
+            if kind == "store" and root in holders and path.startswith(".opt.") and path.count(".") == 2 and isinstance(val, ast.Constant) and val.value is None \
+                    and isinstance(stmt, ast.Assign) and cfg.must_pass(cn, [snid]):
+                cleared.add(path[len(".opt."):])
+        for dl in walk_no_nested(fi.node):
+            if isinstance(dl, ast.Delete):
+                for t in dl.targets:
+                    r0, p0 = _root_path(t)
+                    if r0 in holders and p0 and p0.startswith(".opt.") and p0.count(".") == 2 and cfg.must_pass(cn, cfg.locate(dl)):
+                        cleared.add(p0[len(".opt."):])
         want = {"uri_host", "uri_port", "proxy_uri", "proxy_scheme"}
         ctx.ob("the inner copy of a request has Uri-Host, Uri-Port, Proxy-Uri and Proxy-Scheme cleared", want <= cleared, fi, c,
                detail="cleared: %s" % sorted(cleared))
@@ -596,16 +707,18 @@ def a(ctx):
     pn = params(fi)
     ctx.need(len(pn) >= 2, "protect signature changed")
     msg = pn[0]
-    fl = Flow(prog, fi, sanitisers={"encrypt"}, opaque_self_calls={"_split_message"})
+    fl = Flow(prog, fi, sanitisers={"encrypt"}, opaque_self_calls={"_split_message"}, path_sensitive=True)
     def is_split0(l):
         return l[0] == ("self",) and l[1] == "._split_message()[0]"
-    splits = list(find("self._split_message($*a)", fi.node))
+    splits = self_calls(fi, "_split_message")
     ctx.floor("_split_message calls in protect", len(splits), 1)
-    for c, b in splits:
-        ok = len(b["a"]) == 2 and all(isinstance(x, ast.Name) for x in b["a"]) and [x.id for x in b["a"]] == pn[:2] and not writes_to_name(fi.node, pn[0])
+    for c in splits:
+        sa, _ = bound_args(prog, c, CP + "_split_message")
+        ok = sa is not None and len(sa) == 2 and all(isinstance(x, ast.Name) for x in sa) and [x.id for x in sa] == pn[:2] and not writes_to_name(fi.node, pn[0])
         ctx.ob("protect splits the message it was given", ok, fi, c)
     stores, calls, passed = _outer_uses(fl, is_split0)
-    ctx.floor("stores to the outer message in protect", len(stores), 4)
+    # (the two stores that matter are demanded by name below; direction / transport tuning may equally be constructor keywords in _split_message)
+    ctx.floor("stores to the outer message in protect", len(stores), 2)
     seen = set()
     for path, val, nid, stmt in stores:
         seen.add(path)
@@ -634,16 +747,17 @@ def a(ctx):
         mod = [s for s in tfl.stores if s[0] == pname and (s[5] == "store" or list(s[2].args) or s[2].keywords)]
         ctx.ob("%s (default implementation) does not modify the outer message" % tgt.short, not mod, tgt, mod[0][4] if mod else tgt.node,
                construct=stmt_text(mod[0][4]) if mod else "%s(%s)" % (tgt.short, pname))
-    comp = list(find("self._compress($*a)", fi.node))
+    comp = self_calls(fi, "_compress")
     ctx.floor("_compress calls in protect", len(comp), 1)
     n_enc = 0
-    for c, b in comp:
-        ctx.need(len(b["a"]) == 3 and not c.keywords, "_compress call with unexpected arity")
-        pl = _prim(fl.src(b["a"][2], fl.node_of(c)))
+    for c in comp:
+        ca, _ = bound_args(prog, c, CP + "_compress")
+        ctx.need(ca is not None and len(ca) == 3, "_compress call with unexpected arity")
+        pl = _prim(fl.src(ca[2], fl.node_of(c)))
         ok = bool(pl) and all(l[0][0] == "const" or (l[0] == ("self",) and l[1] in ENCRYPT_PATHS) for l in pl)
         n_enc += any(l[0] == ("self",) and l[1] in ENCRYPT_PATHS for l in pl)
         ctx.ob("the body handed to _compress is the output of the context's encryption algorithm", ok, fi, c, detail="sources: %s" % fmt_leaves(pl))
-    ctx.ob("some _compress call carries the ciphertext", n_enc >= 1, fi, comp[0][0], construct="ciphertext into _compress")
+    ctx.ob("some _compress call carries the ciphertext", n_enc >= 1, fi, comp[0], construct="ciphertext into _compress")
     for r in [n for n in walk_no_nested(fi.node) if isinstance(n, ast.Return)]:
         ok = isinstance(r.value, ast.Tuple) and len(r.value.elts) == 2
         pl = _prim(fl.src(r.value.elts[0], fl.node_of(r))) if ok else set()
@@ -687,21 +801,57 @@ def a(ctx):
     ctx.ob("both RFC 8613 code styles exist", {v[0] for v in table.values()} == set(REF_CODESTYLE), None, None, construct="CodeStyle constants")
     ff = prog.func("oscore.CodeStyle.from_request")
     fp = params(ff)
-    fcfg = cfg_of(ff)
-    frets = [n for n in walk_no_nested(ff.node) if isinstance(n, ast.Return)]
-    ctx.floor("returns in CodeStyle.from_request", len(frets), 2)
-    for r in frets:
-        name = r.value.attr if isinstance(r.value, ast.Attribute) and chain(r.value.value) in ("cls", "CodeStyle") else None
-        ctx.need(name in table, "from_request returns something that is not a CodeStyle constant")
-        conds = tuple(guard_exprs(fcfg, fcfg.loc1(r)))
-        b = cond_has(ff.node, conds, "%s == $c" % fp[0], True)
-        got = prog.resolve_in_module(mod, chain(b["c"]) or "?").split(".")[-1] if b else None
-        ctx.ob("from_request maps a request code to the style with that request code", got == table[name][0], ff, r, detail="guard code %s, style %s" % (got, table[name]))
+    ctx.need(len(fp) >= 1, "CodeStyle.from_request signature changed")
+
+    def style_name(e):
+        return e.attr if isinstance(e, ast.Attribute) and chain(e.value) in ("cls", "CodeStyle") and e.attr in table else None
+
+    def code_name(e):
+        c = chain(e)
+        return prog.resolve_in_module(mod, c).split(".")[-1] if c else None
+
+    # the mapping request code -> style, whether it is written as an if-chain / match (one returning path per code, decided by a
+    # comparison of the parameter with the code) or as a table indexed by the parameter
+    mapping = []  # (code name, style name, node)
+    for q in [q for q in kit.Runner(ff, prog).paths() if q.end in ("return", "fall")]:
+        v = q.value
+        ctx.need(q.end == "return", "from_request can fall off its end")
+        tbl = None
+        if isinstance(v, ast.Subscript) and isinstance(v.value, ast.Dict) and chain(v.slice) == fp[0]:
+            tbl = v.value
+        elif isinstance(v, ast.Call) and isinstance(v.func, ast.Attribute) and v.func.attr == "get" and isinstance(v.func.value, ast.Dict) and v.args and chain(v.args[0]) == fp[0]:
+            tbl = v.func.value
+        if tbl is not None:
+            for k, val in zip(tbl.keys, tbl.values):
+                ctx.need(k is not None and style_name(val) is not None, "from_request: table entry that is not code -> CodeStyle constant")
+                mapping.append((code_name(k), style_name(val), q.endnode))
+            continue
+        ctx.need(style_name(v) is not None, "from_request returns something that is not a CodeStyle constant: %s" % kit.txt(v)[:60])
+        codes = set()
+        for cnd, out, _ in q.conds:
+            if isinstance(cnd, ast.Compare) and len(cnd.ops) == 1 and isinstance(cnd.ops[0], (ast.Eq, ast.NotEq, ast.Is, ast.IsNot)):
+                l, r = cnd.left, cnd.comparators[0]
+                other = r if chain(l) == fp[0] else (l if chain(r) == fp[0] else None)
+                if other is not None and isinstance(cnd.ops[0], (ast.Eq, ast.Is)) == out:
+                    codes.add(code_name(other))
+        mapping.append((next(iter(codes)) if len(codes) == 1 else None, style_name(v), q.endnode))
+    ctx.floor("request codes mapped by CodeStyle.from_request", len(mapping), 2)
+    for code, name, node in mapping:
+        ctx.ob("from_request maps a request code to the style with that request code", code == table[name][0], ff, node, detail="code %s -> style %s %s" % (code, name, table[name]),
+               construct="from_request: %s -> %s" % (table[name][0], name))
     init = prog.func("oscore.RequestIdentifiers.__init__")
     ip = params(init)
-    st = [s for k, s in stores_to(init.node, "self.code_style") if k == "assign"]
-    ok = len(st) == 1 and match("CodeStyle.from_request(%s)" % ip[3], st[0].value) is not None and not writes_to_name(init.node, ip[3]) if len(ip) >= 4 else False
-    ctx.ob("RequestIdentifiers derives its code style from the request code", ok, init, st[0] if st else init.node)
+    ctx.need(len(ip) >= 4, "RequestIdentifiers.__init__ signature changed")
+    bad, node = [], init.node
+    for q in [q for q in kit.Runner(init, prog).paths() if q.end in ("return", "fall")]:
+        st = [ev for ev in q.events if ev[0] == "store" and chain(ev[1]) == "self.code_style"]
+        if not st:
+            bad.append("self.code_style is not stored on the path [%s]" % _describe(q))
+        elif match("CodeStyle.from_request(%s)" % ip[3], st[-1][2]) is None:
+            bad.append("stored value: %s" % kit.txt(st[-1][2])[:80])
+            node = st[-1][3]
+    ctx.ob("RequestIdentifiers derives its code style from the request code", not bad, init, node, detail=bad[0] if bad else None,
+           construct="self.code_style = CodeStyle.from_request(request_code)")
 
 
 # ---------------------------------------------------------------------------
@@ -716,13 +866,110 @@ def _cose_key(prog, fi, e):
     return q.split(".")[-1] if q and q.startswith("aiocoap.oscore.COSE_") else None
 
 
-def _dict_read(prog, fi, e):
-    """COSE key name when e reads an entry of a dict: d.pop(K[, dflt]) / d.get(K[, dflt]) / d[K]."""
-    if isinstance(e, ast.Call) and isinstance(e.func, ast.Attribute) and e.func.attr in ("pop", "get") and e.args:
-        return _cose_key(prog, fi, e.args[0])
-    if isinstance(e, ast.Subscript):
-        return _cose_key(prog, fi, e.slice)
-    return None
+class _UnprotectModel(kit.MapModel):
+    """unprotect() executed path-wise up to the decryption: the map of unprotected header fields is the third component of
+    what _extract_encrypted0 returned (whatever local it is unpacked or indexed into)."""
+
+    def is_map(self, e):
+        return (isinstance(e, ast.Subscript) and isinstance(e.slice, ast.Constant) and e.slice.value == 2 and isinstance(e.value, ast.Call)
+                and isinstance(e.value.func, ast.Attribute) and e.value.func.attr == "_extract_encrypted0")
+
+
+def _unprotect_results(ctx, prog):
+    """Facts of CanUnprotect.unprotect decided on every feasible path from the entry to the decryption (kit.MapModel): which
+    header fields the message carried (one decision per field, whichever way it is queried: `in`, pop with default, get,
+    `is None` on the popped value), which comparisons were decided on the way, and the *values* of the arguments of decrypt
+    written over the entry state.  "X is used exactly when the message carries a partial IV", "the comparison precedes
+    decrypt" become statements about these paths; nesting, guard order, early raise, `and`-ed guards, named conditions and
+    the way a default is supplied do not exist at that level."""
+    if "unprotect" in _cache(prog):
+        return _cache(prog)["unprotect"]
+    fi = prog.func(CU + "unprotect")
+    pn = params(fi)
+    ctx.need(len(pn) == 2, "unprotect signature changed")
+    msg, rid = pn
+    cfg = cfg_of(fi)
+    decs = _decrypt_calls(fi)
+    ctx.floor("decrypt calls in unprotect", len(decs), 1)
+    M = _UnprotectModel(fi, prog, lambda e: _cose_key(prog, fi, e), "unprotect", fork_values=True, stop_at={n for d in decs for n in cfg.locate(d)})
+    paths = [q for q in M.paths() if q.end == "stop"]
+    ctx.floor("feasible paths of unprotect that reach the decryption", len(paths), 8)
+    res = {"fi": fi, "node": decs[0], "nonce": {0: [], 1: []}, "kinds": {0: set(), 1: set()}, "aad": [], "aad_fresh": [], "aad_kinds": set(), "cmp": {"COSE_KID": [], "COSE_KID_CONTEXT": []},
+           "len": [], "n": len(paths)}
+    N = Normalizer()
+
+    def is_field(e, k):
+        return isinstance(e, ast.Name) and e.id == kit.FIELD_PREFIX + k
+
+    for q in paths:
+        had = q.state["had"]
+        dec = [x for x in ast.walk(q.value) if isinstance(x, ast.Call) and isinstance(x.func, ast.Attribute) and x.func.attr == "decrypt"] if q.value is not None else []
+        ctx.need(len(dec) >= 1, "the decryption call is not part of the statement the path stops at")
+        dargs, _ = bound_args(prog, dec[0], ALG_DECRYPT)
+        ctx.need(dargs is not None and len(dargs) == 4, "decrypt call with unexpected arity")
+        dec = dec[0]
+        where = _describe(q)
+        # ---- nonce inputs
+        nonce = dargs[3]
+        nargs = bound_args(prog, nonce, BS + "_construct_nonce")[0] if isinstance(nonce, ast.Call) and chain(nonce.func) == "self._construct_nonce" else None
+        if nargs is not None and len(nargs) == 3:
+            want = {True: "own", False: "request"}.get(had.get("COSE_PIV"), "undecided")
+            for pos, own_ok, req_chain in ((0, lambda e: is_field(e, "COSE_PIV"), "%s.partial_iv" % rid), (1, lambda e: chain(e) == "self.recipient_id", "%s.kid" % rid)):
+                a = nargs[pos]
+                kind = "own" if own_ok(a) else ("request" if chain(a) == req_chain else "other: %s" % kit.txt(a)[:50])
+                res["kinds"][pos].add(kind)
+                if kind != want:
+                    res["nonce"][pos].append((q, "partial IV in the message: %s, nonce input %d is %s [%s]" % (had.get("COSE_PIV", "never looked at"), pos, kind, where)))
+        else:
+            for pos in (0, 1):
+                res["nonce"][pos].append((q, "the nonce is not a _construct_nonce(piv, id, alg) result: %s" % kit.txt(nonce)[:80]))
+        # ---- request identifiers in the AAD
+        aads = [x for x in ast.walk(dargs[1]) if isinstance(x, ast.Call) and isinstance(x.func, ast.Attribute) and x.func.attr == "_extract_external_aad"]
+        if not aads:
+            res["aad"].append((q, "the AAD does not come from _extract_external_aad: %s" % kit.txt(dargs[1])[:80]))
+        for c in aads:
+            xa = bound_args(prog, c, BS + "_extract_external_aad")[0]
+            t = xa[1] if xa is not None and len(xa) >= 2 else None
+            if isinstance(t, ast.Name) and t.id == rid:
+                res["aad_kinds"].add("param")
+            elif isinstance(t, ast.Call) and qn(prog, fi, t.func) == "aiocoap.oscore.RequestIdentifiers" and len(bound_args(prog, t, "oscore.RequestIdentifiers.__init__")[0] or ()) >= 2:
+                ra = bound_args(prog, t, "oscore.RequestIdentifiers.__init__")[0]
+                res["aad_kinds"].add("fresh")
+                isreq = any((match("%s.code.is_request()" % msg, cnd) is not None and out) or (match("%s.code.is_response()" % msg, cnd) is not None and not out) for cnd, out, _ in q.conds)
+                if not isreq:
+                    res["aad"].append((q, "fresh request identifiers on a path that is not decided to be a request [%s]" % where))
+                if not (chain(ra[0]) == "self.recipient_id" and is_field(ra[1], "COSE_PIV")):
+                    res["aad_fresh"].append((q, "RequestIdentifiers(%s, %s, ...)" % (kit.txt(ra[0])[:40], kit.txt(ra[1])[:40])))
+            else:
+                res["aad"].append((q, "request identifiers in the AAD: %s" % (kit.txt(t)[:60] if t is not None else None)))
+        # ---- KID / KID context comparisons
+        for k, attr in (("COSE_KID", "self.recipient_id"), ("COSE_KID_CONTEXT", "self.id_context")):
+            if had.get(k) is False:
+                continue
+            eq = False
+            for cnd, out, _ in q.conds:
+                if isinstance(cnd, ast.Compare) and len(cnd.ops) == 1 and isinstance(cnd.ops[0], (ast.Eq, ast.NotEq)):
+                    l, r = cnd.left, cnd.comparators[0]
+                    if (is_field(l, k) and chain(r) == attr) or (is_field(r, k) and chain(l) == attr):
+                        eq = eq or (isinstance(cnd.ops[0], ast.Eq) == out)
+            if not eq:
+                res["cmp"][k].append((q, "%s is %s but decrypt is reached without %s == %s having been decided [%s]" % (k, "present" if k in had else "never looked at", k, attr, where)))
+        # ---- minimum length of what is decrypted
+        c0 = dargs[0]
+        lencall = ast.Call(func=ast.Name(id="len", ctx=ast.Load()), args=[c0], keywords=[])
+        want = N.negate(N.cmp(ast.Compare(left=lencall, ops=[ast.Lt()], comparators=[ast.parse("self.alg_aead.tag_bytes + 1", mode="eval").body])))
+        facts = set()
+        for cnd, out, _ in q.conds:
+            if isinstance(cnd, ast.Compare) and len(cnd.ops) == 1 and isinstance(cnd.ops[0], (ast.Lt, ast.Gt, ast.LtE, ast.GtE)):
+                try:
+                    nf = N.cmp(cnd)
+                except norm.NormError:
+                    continue
+                facts.add(nf if out else N.negate(nf))
+        if want not in facts and not (want[0] == "lt" and kit.entails_lt0(facts, want[1])):
+            res["len"].append((q, "decrypted value %s; comparisons decided on the path: %s" % (kit.txt(c0)[:60], sorted(map(repr, facts)))))
+    _cache(prog)["unprotect"] = res
+    return res
 
 
 @R.clause("C11.b", "request binding: the AAD carries the request's kid and partial IV, a response without PIV derives its nonce from them, nonce reuse is one-shot")
@@ -733,23 +980,21 @@ def b(ctx):
     pn = params(fi)
     ctx.need(len(pn) >= 2, "_extract_external_aad signature changed")
     rid = pn[1]
-    fl = Flow(prog, fi)
-    rets = [n for n in walk_no_nested(fi.node) if isinstance(n, ast.Return)]
-    ctx.floor("returns of _extract_external_aad", len(rets), 1)
-    for r in rets:
-        terms = fl.terminals(r.value, fl.node_of(r))
-        for t, tn, conds in terms:
-            ok = isinstance(t, ast.Call) and qn(prog, fi, t.func) == "cbor2.dumps" and len(t.args) == 1
-            ctx.need(ok, "_extract_external_aad does not return cbor.dumps(<array>)")
-            arrs = fl.terminals(t.args[0], tn)
-            for arr, an, _ in arrs:
-                ctx.need(isinstance(arr, ast.List), "the external AAD is not built from a list display")
-                okk = len(arr.elts) >= 5 and fl.src(arr.elts[2], an) == {(("param", rid), ".kid", True)} and fl.src(arr.elts[3], an) == {(("param", rid), ".partial_iv", True)}
-                ctx.ob("external_aad = [version, algorithms, request_kid, request_piv, options]: positions 2 and 3 are the request's kid and partial IV", okk, fi, arr,
-                       detail="array: %s" % stmt_text(arr, 120))
-            if isinstance(t.args[0], ast.Name):
-                kinds = sorted({k for k, _ in stores_to(fi.node, t.args[0].id)} - {"assign", "append"})
-                ctx.ob("the AAD array is only extended after it is built (no element replaced or removed)", not kinds, fi, r, detail="other writes: %s" % kinds)
+    # The function is executed path-wise (kit.Runner); a list built by a display and then grown by append / extend / `+=` / `[*a, *b]`
+    # is the same value as one longer display, and an element replaced or removed afterwards shows up in that value (or makes it
+    # opaque -> refusal), so "positions 2 and 3 of what is serialised" is decided on the array actually handed to cbor.dumps.
+    rets = [q for q in kit.Runner(fi, prog, fork_values=False).paths() if q.end in ("return", "fall")]
+    ctx.floor("returning paths of _extract_external_aad", len(rets), 1)
+    for q in rets:
+        t = q.value
+        ok = q.end == "return" and isinstance(t, ast.Call) and qn(prog, fi, t.func) == "cbor2.dumps" and len(t.args) == 1 and not t.keywords
+        ctx.need(ok, "_extract_external_aad does not return cbor.dumps(<array>)")
+        arr = t.args[0]
+        ctx.need(isinstance(arr, (ast.List, ast.Tuple)) and not any(isinstance(x, ast.Starred) for x in arr.elts[:4]),
+                 "the external AAD is not an array whose first elements the rule can enumerate: %s" % kit.txt(arr)[:80])
+        okk = len(arr.elts) >= 5 and chain(arr.elts[2]) == "%s.kid" % rid and chain(arr.elts[3]) == "%s.partial_iv" % rid
+        ctx.ob("external_aad = [version, algorithms, request_kid, request_piv, options]: positions 2 and 3 are the request's kid and partial IV", okk, fi, q.endnode,
+               detail="array: %s" % kit.txt(arr)[:160], construct="external_aad[2:4] = request_id.kid, request_id.partial_iv")
 
     # ---- unprotect -----------------------------------------------------------------
     fi = prog.func(CU + "unprotect")
@@ -761,72 +1006,45 @@ def b(ctx):
     ctx.floor("decrypt calls in unprotect", len(decs), 1)
     for d in decs:
         dn = fl.node_of(d)
-        ctx.need(len(d.args) == 4 and not d.keywords, "decrypt call with unexpected arity")
-        aadl = fl.src(d.args[1], dn)
+        da, _ = bound_args(prog, d, ALG_DECRYPT)
+        ctx.need(da is not None and len(da) == 4, "decrypt call with unexpected arity")
+        aadl = fl.src(da[1], dn)
         ctx.ob("the AAD given to decrypt is derived from _extract_external_aad", any(l[0] == ("self",) and l[1] == "._extract_external_aad()" for l in aadl), fi, d)
-        nl = _prim(fl.src(d.args[3], dn))
+        nl = _prim(fl.src(da[3], dn))
         ctx.ob("the nonce given to decrypt is the result of _construct_nonce", bool(nl) and all(l[0] == ("self",) and l[1] == "._construct_nonce()" for l in nl), fi, d,
                detail="sources: %s" % fmt_leaves(nl))
-    ncs = list(find("self._construct_nonce($*a)", fi.node))
-    ctx.floor("_construct_nonce calls in unprotect", len(ncs), 1)
-    for c, bnd in ncs:
-        ctx.need(len(bnd["a"]) == 3 and not c.keywords, "_construct_nonce call with unexpected arity")
-        cn = fl.node_of(c)
-        for pos, req_attr, own in ((0, ".partial_iv", "COSE_PIV"), (1, ".kid", "self.recipient_id")):
-            seen = set()
-            for t, tn, conds in fl.terminals(bnd["a"][pos], cn):
-                if not isinstance(t, ast.AST):
-                    ctx.ob("nonce input %d has a recognisable source" % pos, False, fi, c, detail="definition by %s" % t.kind)
-                    continue
-                has_piv = cond_has(fi.node, conds, "COSE_PIV in $u", True) is not None
-                no_piv = cond_has(fi.node, conds, "COSE_PIV in $u", False) is not None
-                if fl.src(t, tn) == {(("param", rid), req_attr, True)}:
-                    seen.add("request")
-                    ctx.ob("the request's %s is used for the nonce exactly when the message carries no partial IV" % req_attr[1:], no_piv, fi, t,
-                           construct="nonce input %d <- %s" % (pos, stmt_text(t)))
-                elif (own == "COSE_PIV" and _dict_read(prog, fi, t) == "COSE_PIV") or (own != "COSE_PIV" and chain(t) == own):
-                    seen.add("own")
-                    ctx.ob("the message's own partial IV / sender is used for the nonce exactly when a partial IV is present", has_piv, fi, t,
-                           construct="nonce input %d <- %s" % (pos, stmt_text(t)))
-                else:
-                    ctx.ob("nonce inputs are either the request's identifiers or the message's own partial IV and the recipient ID", False, fi, t,
-                           construct="nonce input %d <- %s" % (pos, stmt_text(t)))
-            ctx.ob("both nonce sources (request identifiers / own partial IV) exist for input %d" % pos, seen == {"request", "own"}, fi, c,
-                   construct="nonce input %d of unprotect" % pos, detail="found %s" % sorted(seen))
-    aads = list(find("self._extract_external_aad($*a, $**k)", fi.node))
-    ctx.floor("_extract_external_aad calls in unprotect", len(aads), 1)
-    for c, bnd in aads:
-        ctx.need(len(bnd["a"]) >= 2, "_extract_external_aad call with unexpected arity")
-        an = fl.node_of(c)
-        for t, tn, conds in fl.terminals(bnd["a"][1], an):
-            if not isinstance(t, ast.AST) and t.kind == "param" and t.name == rid:
-                ctx.ob("the AAD of a response is built from the request identifiers handed in by the caller", True, fi, c, construct="aad request_id <- parameter")
-            elif isinstance(t, ast.Call) and qn(prog, fi, t.func) == "aiocoap.oscore.RequestIdentifiers" and len(t.args) >= 2:
-                ok = is_request_cond(fi.node, conds, msg) is True
-                ctx.ob("fresh request identifiers replace the caller's only while unprotecting a request", ok, fi, t, construct="aad request_id <- RequestIdentifiers(...)")
-                kid = [x[0] for x in fl.terminals(t.args[0], tn)]
-                piv = [x[0] for x in fl.terminals(t.args[1], tn)]
-                ok2 = all(isinstance(x, ast.AST) and chain(x) == "self.recipient_id" for x in kid) and all(isinstance(x, ast.AST) and _dict_read(prog, fi, x) == "COSE_PIV" for x in piv)
-                ctx.ob("a request's identifiers are (recipient ID, partial IV of the message)", bool(kid and piv and ok2), fi, t,
-                       construct="RequestIdentifiers(kid, piv) in unprotect")
-            else:
-                ctx.ob("the request identifiers in the AAD are the caller's or freshly built ones", False, fi, c,
-                       detail="source %s" % (stmt_text(t) if isinstance(t, ast.AST) else t.kind))
+    UP = _unprotect_results(ctx, prog)
+    for pos, what in ((0, "partial IV"), (1, "sender")):
+        bad = UP["nonce"][pos]
+        ctx.ob("nonce input %d: the message's own %s is used exactly when the message carries a partial IV, the request's otherwise" % (pos, what), not bad, fi,
+               (bad[0][0].endnode if bad else UP["node"]), detail=_first(bad), construct="nonce input %d of unprotect vs presence of COSE_PIV" % pos)
+        ctx.ob("both nonce sources (request identifiers / own partial IV) exist for input %d" % pos, UP["kinds"][pos] == {"request", "own"}, fi, UP["node"],
+               construct="nonce input %d of unprotect" % pos, detail="found %s" % sorted(UP["kinds"][pos]))
+    ctx.ob("the request identifiers in the AAD are the caller's, or freshly built ones while unprotecting a request", not UP["aad"], fi,
+           (UP["aad"][0][0].endnode if UP["aad"] else UP["node"]), detail=_first(UP["aad"]), construct="aad request_id <- parameter | RequestIdentifiers(...) for requests")
+    ctx.ob("a request's identifiers are (recipient ID, partial IV of the message)", not UP["aad_fresh"], fi, (UP["aad_fresh"][0][0].endnode if UP["aad_fresh"] else UP["node"]),
+           detail=_first(UP["aad_fresh"]), construct="RequestIdentifiers(kid, piv) in unprotect")
+    ctx.ob("both kinds of request identifiers (caller's for responses, fresh for requests) reach the AAD", UP["aad_kinds"] == {"param", "fresh"}, fi, UP["node"],
+           detail="found %s" % sorted(UP["aad_kinds"]), construct="aad request_id kinds")
 
     # ---- protect -----------------------------------------------------------------------
     fi = prog.func(CP + "protect")
     pn = params(fi)
     msg, rid = pn[0], pn[1]
-    fl = Flow(prog, fi, sanitisers=(), opaque_self_calls={"_split_message"})
-    ncs = list(find("self._construct_nonce($*a)", fi.node))
+    fl = Flow(prog, fi, sanitisers=(), opaque_self_calls={"_split_message"}, path_sensitive=True)
+    ncs = self_calls(fi, "_construct_nonce")
     ctx.floor("_construct_nonce calls in protect", len(ncs), 1)
-    for c, bnd in ncs:
-        ctx.need(len(bnd["a"]) == 3, "_construct_nonce call with unexpected arity")
+    for c in ncs:
+        na, _ = bound_args(prog, c, BS + "_construct_nonce")
+        ctx.need(na is not None and len(na) == 3, "_construct_nonce call with unexpected arity")
         cn = fl.node_of(c)
         for pos, idx in ((0, "[1]"), (1, "[0]")):
-            pl = _prim(fl.src(bnd["a"][pos], cn))
-            arg = bnd["a"][pos]
-            if isinstance(arg, ast.Name) and (guarded_by(fl.cfg, cn, "%s is None" % arg.id, False)):
+            pl = _prim(fl.src(na[pos], cn))
+            arg = na[pos]
+            # the `None` initialisation of the pair's locals cannot reach a call that is dominated by `<local> is not None` (directly
+            # or through a named condition, which cond_has resolves); with the path-sensitive flow it normally does not even show up
+            if isinstance(arg, ast.Name) and (guarded_by(fl.cfg, cn, "%s is None" % arg.id, False)
+                                              or cond_has(fi.node, tuple(guard_exprs(fl.cfg, cn)), "%s is None" % arg.id, False) is not None):
                 pl = {l for l in pl if l[0] != ("const", "None")}
             ok = pl == {(("param", rid), ".get_reusable_kid_and_piv()" + idx, True)}
             ctx.ob("a reused nonce is built from the pair handed out by request_id.get_reusable_kid_and_piv()", ok, fi, c,
@@ -835,61 +1053,90 @@ def b(ctx):
     ctx.floor("encrypt calls in protect", len(encs), 1)
     for e in encs:
         en = fl.node_of(e)
-        ctx.need(len(e.args) == 4 and not e.keywords, "encrypt call with unexpected arity")
-        nl = _prim(fl.src(e.args[3], en))
+        ea, _ = bound_args(prog, e, ALG_ENCRYPT)
+        ctx.need(ea is not None and len(ea) == 4, "encrypt call with unexpected arity")
+        nl = _prim(fl.src(ea[3], en))
         ok = bool(nl) and all(l[0] == ("self",) and l[1] in ("._construct_nonce()", "._build_new_nonce()[0]") for l in nl)
         ctx.ob("the nonce given to encrypt is a reused or a freshly built one", ok, fi, e, detail="sources: %s" % fmt_leaves(nl))
-        aadl = fl.src(e.args[1], en)
+        aadl = fl.src(ea[1], en)
         ctx.ob("the AAD given to encrypt is derived from _extract_external_aad", any(l[0] == ("self",) and l[1] == "._extract_external_aad()" for l in aadl), fi, e)
-        ptl = _prim(fl.src(e.args[0], en))
+        ptl = _prim(fl.src(ea[0], en))
         ctx.ob("what is encrypted is the plaintext produced by _split_message", ptl == {(("self",), "._split_message()[1]", True)}, fi, e, detail="sources: %s" % fmt_leaves(ptl))
-    aads = list(find("self._extract_external_aad($*a, $**k)", fi.node))
+    aads = self_calls(fi, "_extract_external_aad")
     ctx.floor("_extract_external_aad calls in protect", len(aads), 1)
-    for c, bnd in aads:
+    for c in aads:
         an = fl.node_of(c)
-        for t, tn, conds in fl.terminals(bnd["a"][1], an):
+        xa, _ = bound_args(prog, c, BS + "_extract_external_aad")
+        ctx.need(xa is not None and len(xa) >= 2, "_extract_external_aad call with unexpected arity")
+        for t, tn, conds in fl.terminals(xa[1], an):
             if not isinstance(t, ast.AST) and t.kind == "param" and t.name == rid:
                 ctx.ob("the AAD of a response is built from the identifiers of the request it answers", True, fi, c, construct="aad request_id <- parameter")
-            elif isinstance(t, ast.Call) and qn(prog, fi, t.func) == "aiocoap.oscore.RequestIdentifiers" and len(t.args) >= 2:
+            elif isinstance(t, ast.Call) and qn(prog, fi, t.func) == "aiocoap.oscore.RequestIdentifiers" and len(bound_args(prog, t, "oscore.RequestIdentifiers.__init__")[0] or ()) >= 2:
+                ra = bound_args(prog, t, "oscore.RequestIdentifiers.__init__")[0]
                 ok = is_request_cond(fi.node, conds, msg) is True
-                pivl = _prim(fl.src(t.args[1], tn))
-                ok2 = chain(t.args[0]) == "self.sender_id" and bool(pivl) and all(
+                pivl = _prim(fl.src(ra[1], tn))
+                ok2 = chain(ra[0]) == "self.sender_id" and bool(pivl) and all(
                     l in ((("self",), "._build_new_nonce()[1]", True), (("param", rid), ".get_reusable_kid_and_piv()[1]", True)) for l in pivl)
                 ctx.ob("a request's AAD identifiers are (own sender ID, partial IV of this message), built only for requests", ok and ok2, fi, t,
                        construct="RequestIdentifiers(kid, piv) in protect")
             else:
                 ctx.ob("the request identifiers in the AAD are the caller's or freshly built ones", False, fi, c,
                        detail="source %s" % (stmt_text(t) if isinstance(t, ast.AST) else t.kind))
-    # a freshly generated partial IV travels in the option
-    fresh = [(s, nid) for root, path, val, nid, s, kind in fl.stores
-             if kind == "store" and path == "[]" and isinstance(s, ast.Assign) and isinstance(s.targets[0], ast.Subscript) and _cose_key(prog, fi, s.targets[0].slice) == "COSE_PIV"]
+    # a freshly generated partial IV travels in the option: every spelling of "insert COSE_PIV into a map" counts
+    # (`m[K] = v`, `m.update({K: v})`, `m.setdefault(K, v)`, `m |= {K: v}`, a display `{K: v}` / `{**m, K: v}` bound to a local)
+    fresh = []
+    for n in walk_no_nested(fi.node):
+        pairs = []
+        if isinstance(n, ast.Assign) and len(n.targets) == 1 and isinstance(n.targets[0], ast.Subscript):
+            pairs = [(n.targets[0].slice, n.value)]
+        elif isinstance(n, ast.Call) and isinstance(n.func, ast.Attribute) and n.func.attr == "update" and len(n.args) == 1 and isinstance(n.args[0], ast.Dict):
+            pairs = [(k, v) for k, v in zip(n.args[0].keys, n.args[0].values) if k is not None]
+        elif isinstance(n, ast.Call) and isinstance(n.func, ast.Attribute) and n.func.attr == "setdefault" and len(n.args) == 2:
+            pairs = [(n.args[0], n.args[1])]
+        elif isinstance(n, (ast.Assign, ast.AugAssign, ast.AnnAssign)) and isinstance(n.value, ast.Dict):
+            pairs = [(k, v) for k, v in zip(n.value.keys, n.value.values) if k is not None]
+        for k, v in pairs:
+            if _cose_key(prog, fi, k) == "COSE_PIV" and fl.cfg.locate(n):
+                fresh.append((n, v, fl.node_of(n)))
     builds = [fl.node_of(c) for c, _ in find("self._build_new_nonce($*a)", fi.node)]
     ctx.floor("_build_new_nonce calls in protect", len(builds), 1)
     okf = False
-    for s, nid in fresh:
-        pl = _prim(fl.src(s.value, nid))
+    for s, v, nid in fresh:
+        pl = _prim(fl.src(v, nid))
         if pl == {(("self",), "._build_new_nonce()[1]", True)} and any(fl.cfg.dominates(bn, nid) for bn in builds):
             okf = all(fl.cfg.must_pass(bn, [nid]) for bn in builds)
     ctx.ob("a freshly generated partial IV is always placed into the OSCORE option", okf, fi, fresh[0][0] if fresh else fi.node,
            construct="unprotected[COSE_PIV] <- _build_new_nonce()[1]")
 
     # ---- one-shot reuse -------------------------------------------------------------------
+    # decided per path (kit.Runner): whenever a pair other than (None, None) is returned, the flag was read as true on that path and a
+    # false constant has been stored to it before the return.  Guard clause or if/else, the flag hoisted into a local before
+    # it is cleared, the pair built before or after the clearing are the same facts.
     fi = prog.func("oscore.RequestIdentifiers.get_reusable_kid_and_piv")
-    cfg = cfg_of(fi)
-    rets = [n for n in walk_no_nested(fi.node) if isinstance(n, ast.Return)]
-    ctx.floor("returns of get_reusable_kid_and_piv", len(rets), 2)
-    clears = [cfg.loc1(s) for k, s in stores_to(fi.node, "self.can_reuse_nonce") if k == "assign" and isinstance(s, ast.Assign) and isinstance(s.value, ast.Constant) and s.value.value is False]
+    rets = [q for q in kit.Runner(fi, prog).paths() if q.end in ("return", "fall")]
+    ctx.floor("returning paths of get_reusable_kid_and_piv", len(rets), 2)
     nonnull = 0
-    for r in rets:
-        v = resolve_local(fi.node, r.value)
-        ctx.need(isinstance(v, ast.Tuple) and len(v.elts) == 2, "get_reusable_kid_and_piv does not return a pair")
+    for q in rets:
+        v = q.value
+        ctx.need(q.end == "return" and isinstance(v, ast.Tuple) and len(v.elts) == 2, "get_reusable_kid_and_piv does not return a pair")
         if all(_is_none_const(x) for x in v.elts):
             continue
         nonnull += 1
-        rn = cfg.loc1(r)
-        ctx.ob("the reusable pair is (kid, partial_iv) of the request", chain(v.elts[0]) == "self.kid" and chain(v.elts[1]) == "self.partial_iv", fi, r)
-        ctx.ob("the pair is handed out only while can_reuse_nonce is set", guarded_by(cfg, rn, "self.can_reuse_nonce", True), fi, r)
-        ctx.ob("handing out the pair clears can_reuse_nonce first (a nonce is reused at most once)", any(cfg.dominates(cn, rn) for cn in clears), fi, r)
+        r = q.endnode
+        ctx.ob("the reusable pair is (kid, partial_iv) of the request", chain(v.elts[0]) == "self.kid" and chain(v.elts[1]) == "self.partial_iv", fi, r,
+               detail="returned %s" % kit.txt(v)[:80], construct="return (self.kid, self.partial_iv)")
+        was_set = False
+        for cnd, out, _ in q.conds:
+            tv = kit.truth_view(cnd, out)
+            if tv is not None and chain(tv[0]) == "self.can_reuse_nonce" and tv[1] and not kit._is_len(cnd):
+                was_set = True
+            if match("self.can_reuse_nonce is True", cnd) is not None and out:
+                was_set = True
+        ctx.ob("the pair is handed out only while can_reuse_nonce is set", was_set, fi, r, detail="path: %s" % _describe(q), construct="pair returned only if self.can_reuse_nonce")
+        st = [ev for ev in q.events if ev[0] == "store" and chain(ev[1]) == "self.can_reuse_nonce"]
+        cleared = bool(st) and isinstance(st[-1][2], ast.Constant) and not st[-1][2].value
+        ctx.ob("handing out the pair clears can_reuse_nonce first (a nonce is reused at most once)", cleared, fi, r,
+               detail="stores on the path: %s" % [kit.txt(ev[2])[:30] for ev in st], construct="self.can_reuse_nonce = False before the pair is returned")
     ctx.floor("non-empty returns of get_reusable_kid_and_piv", nonnull, 1)
 
 
@@ -903,15 +1150,6 @@ def _decrypt_calls(fi):
 # RFC 8613 section 5.2: nonce = (len(ID_PIV) as one byte | zeros to N-6-len(ID_PIV) | ID_PIV | zeros to 5-len(PIV) | PIV) XOR Common IV
 REF_NONCE = [("lenbyte", "ID"), ("zeros", "N - 6 - len(ID)"), ("field", "ID"), ("zeros", "5 - len(PIV)"), ("field", "PIV")]
 PIV_BYTES = 5
-
-
-def _flatten_add(e, env, depth=0):
-    """Operands of a byte-string concatenation, single-assignment locals inlined."""
-    if isinstance(e, ast.BinOp) and isinstance(e.op, ast.Add):
-        return _flatten_add(e.left, env, depth) + _flatten_add(e.right, env, depth)
-    if isinstance(e, ast.Name) and e.id in env and depth < 8:
-        return _flatten_add(env[e.id], env, depth + 1)
-    return [e]
 
 
 def _single_byte_of(e):
@@ -936,9 +1174,19 @@ def _zeros_count(e):
 
 def _layout(ops, N):
     out = []
+
+    def zeros(p):
+        if out and out[-1][0] == "zeros":
+            out[-1] = ("zeros", out[-1][1] + p)
+        else:
+            out.append(("zeros", p))
+
     for o in ops:
         sb = _single_byte_of(o)
         z = _zeros_count(o)
+        if sb is None and isinstance(o, ast.Call) and isinstance(o.func, ast.Attribute) and o.func.attr == "to_bytes" and o.args and isinstance(o.args[0], ast.Constant) and o.args[0].value == 1:
+            sb = o.func.value  # x.to_bytes(1, <any order>) is bytes([x])
+        rj = match("$x.rjust($n, b'\\x00')", o)
         if sb is not None:
             p = N.poly(sb)
             lens = [a for a in p.atoms() if a.startswith("len(")]
@@ -947,11 +1195,11 @@ def _layout(ops, N):
             else:
                 out.append(("byte", repr(p)))
         elif z is not None:
-            p = N.poly(z)
-            if out and out[-1][0] == "zeros":
-                out[-1] = ("zeros", out[-1][1] + p)
-            else:
-                out.append(("zeros", p))
+            zeros(N.poly(z))
+        elif rj is not None:
+            # x.rjust(n, b"\0") == b"\0" * (n - len(x)) + x  (for len(x) <= n; a longer x is left alone, exactly like a negative repeat count)
+            zeros(N.poly(rj["n"]) - N.poly(ast.Call(func=ast.Name(id="len", ctx=ast.Load()), args=[rj["x"]], keywords=[])))
+            out.append(("field", repr(N.poly(rj["x"]))))
         elif isinstance(o, ast.Constant) and o.value == b"":
             continue
         else:
@@ -959,70 +1207,164 @@ def _layout(ops, N):
     return out
 
 
+def _concat_operands(e):
+    """Operands of a byte-string concatenation written with `+`, b"".join([...]) or a mixture."""
+    if isinstance(e, ast.BinOp) and isinstance(e.op, ast.Add):
+        return _concat_operands(e.left) + _concat_operands(e.right)
+    if isinstance(e, ast.Call) and isinstance(e.func, ast.Attribute) and e.func.attr == "join" and isinstance(e.func.value, ast.Constant) and e.func.value.value == b"" \
+            and len(e.args) == 1 and isinstance(e.args[0], (ast.List, ast.Tuple)) and not any(isinstance(x, ast.Starred) for x in e.args[0].elts):
+        return [y for x in e.args[0].elts for y in _concat_operands(x)]
+    return [e]
+
+
+def _to_bytes_view(e):
+    """(n, length, byteorder) for n.to_bytes(length, byteorder) / int.to_bytes(n, length, byteorder), positional or keyword; else None."""
+    if not (isinstance(e, ast.Call) and isinstance(e.func, ast.Attribute) and e.func.attr == "to_bytes"):
+        return None
+    args = list(e.args)
+    n = e.func.value
+    if chain(n) == "int" and args:
+        n, args = args[0], args[1:]
+    kw = {k.arg: k.value for k in e.keywords}
+    length = args[0] if args else kw.get("length")
+    order = args[1] if len(args) > 1 else kw.get("byteorder")
+    lv = length.value if isinstance(length, ast.Constant) else None
+    ov = order.value if isinstance(order, ast.Constant) else None
+    return n, lv, ov
+
+
+def _bytewise_xor(v, a, b):
+    """Is the evaluated expression v the byte-wise XOR of the byte strings named a and b?  Accepted spellings:
+    bytes(x ^ y for x, y in zip(a, b)) with a generator or list comprehension, bytes(map(operator.xor, a, b)),
+    bytes(map(lambda x, y: x ^ y, a, b)), bytes(a[i] ^ b[i] for i in range(len(a)))."""
+    if not (isinstance(v, ast.Call) and chain(v.func) == "bytes" and len(v.args) == 1 and not v.keywords):
+        return False
+    g = v.args[0]
+    pair = {a, b}
+    if isinstance(g, (ast.GeneratorExp, ast.ListComp)) and len(g.generators) == 1 and not g.generators[0].ifs:
+        gen = g.generators[0]
+        elt = g.elt
+        if not (isinstance(elt, ast.BinOp) and isinstance(elt.op, ast.BitXor)):
+            return False
+        it = gen.iter
+        if isinstance(it, ast.Call) and chain(it.func) == "zip" and len(it.args) == 2 and {chain(x) for x in it.args} == pair and not it.keywords \
+                and isinstance(gen.target, ast.Tuple) and len(gen.target.elts) == 2 and all(isinstance(t, ast.Name) for t in gen.target.elts):
+            return {chain(elt.left), chain(elt.right)} == {t.id for t in gen.target.elts} and gen.target.elts[0].id != gen.target.elts[1].id
+        if isinstance(it, ast.Call) and chain(it.func) == "range" and len(it.args) == 1 and isinstance(gen.target, ast.Name) \
+                and isinstance(it.args[0], ast.Call) and chain(it.args[0].func) == "len" and len(it.args[0].args) == 1 and chain(it.args[0].args[0]) in pair:
+            i = gen.target.id
+            subs = [x for x in (elt.left, elt.right) if isinstance(x, ast.Subscript) and chain(x.slice) == i]
+            return len(subs) == 2 and {chain(x.value) for x in subs} == pair
+        return False
+    if isinstance(g, ast.Call) and chain(g.func) == "map" and len(g.args) == 3 and not g.keywords and {chain(x) for x in g.args[1:]} == pair:
+        f = g.args[0]
+        if chain(f) in ("operator.xor", "xor", "operator.__xor__", "int.__xor__"):
+            return True
+        if isinstance(f, ast.Lambda) and len(f.args.args) == 2 and isinstance(f.body, ast.BinOp) and isinstance(f.body.op, ast.BitXor):
+            return {chain(f.body.left), chain(f.body.right)} == {x.arg for x in f.args.args}
+    return False
+
+
 @R.clause("C11.c", "nonce layout equals RFC 8613 section 5.2 and is XORed with the common IV; fresh partial IVs are 5-byte big-endian sequence numbers")
 def c(ctx):
+    """All three functions are executed path-wise (kit.Runner): what is compared is the *value* returned on each path, written
+    over the parameters -- named temporaries, their order, aliases of self.common_iv, `x or y` against `if not x: x = y`, tuple
+    or parenthesised returns do not exist at that level."""
     prog = ctx.prog
     fi = prog.func(BS + "_construct_nonce")
     pn = params(fi)
     ctx.need(len(pn) == 3, "_construct_nonce signature changed")
     piv, pid, alg = pn
-    for p in pn:
-        ctx.need(not writes_to_name(fi.node, p), "_construct_nonce rebinds its parameter %s" % p)
-    env = norm.local_env(fi.node)
     rename = {piv: "PIV", pid: "ID", "%s.iv_bytes" % alg: "N"}
-    N = Normalizer(env=env, rename=rename)
-    rets = [n for n in walk_no_nested(fi.node) if isinstance(n, ast.Return)]
-    ctx.floor("returns of _construct_nonce", len(rets), 1)
+    N = Normalizer(rename=rename)
+    rets = [q for q in kit.Runner(fi, prog).paths() if q.end == "return"]
+    ctx.floor("returning paths of _construct_nonce", len(rets), 1)
     want = []
     for k, v in REF_NONCE:
         want.append((k, Normalizer().poly(ast.parse(v, mode="eval").body)) if k == "zeros" else (k, v))
-    for r in rets:
-        v = resolve_local(fi.node, r.value)
+    for q in rets:
+        v, r = q.value, q.endnode
         ok = isinstance(v, ast.Call) and qn(prog, fi, v.func) == "aiocoap.oscore._xor_bytes" and len(v.args) == 2 and not v.keywords
         if not ok:
-            ctx.ob("the nonce is the XOR of the padded components with the context's common IV", False, fi, r, detail="returned value: %s" % stmt_text(v, 80))
+            ctx.ob("the nonce is the XOR of the padded components with the context's common IV", False, fi, r, detail="returned value: %s" % kit.txt(v)[:80],
+                   construct="nonce = _xor_bytes(common IV, components)")
             continue
-        sides = [resolve_local(fi.node, x) for x in v.args]
+        sides = list(v.args)
         civ = [i for i, s in enumerate(sides) if chain(s.value if isinstance(s, ast.Subscript) else s) == "self.common_iv"]
-        ctx.ob("the nonce is the XOR of the padded components with the context's common IV", len(civ) == 1, fi, v)
+        ctx.ob("the nonce is the XOR of the padded components with the context's common IV", len(civ) == 1, fi, r, construct="nonce = _xor_bytes(common IV, components)")
         if len(civ) != 1:
             continue
-        comp = v.args[1 - civ[0]]
+        comp = sides[1 - civ[0]]
         s = sides[civ[0]]
         if isinstance(s, ast.Subscript):
             sl = s.slice
-            okp = isinstance(sl, ast.Slice) and sl.lower is None and sl.step is None and sl.upper is not None and same(resolve_local(fi.node, sl.upper), ast.parse("len(%s)" % ast.unparse(comp), mode="eval").body)
-            ctx.ob("the common IV is cut to the length of the components from its start", bool(okp), fi, s)
-        got = _layout(_flatten_add(comp, env), N)
-        ctx.ob("nonce components = len(ID) | 0-pad to N-6-len(ID) | ID | 0-pad to 5-len(PIV) | PIV (RFC 8613 section 5.2)", got == want, fi, resolve_local(fi.node, comp),
+            okp = isinstance(sl, ast.Slice) and sl.lower is None and sl.step is None and sl.upper is not None
+            if okp:
+                # the cut length is len(components) -- or the nonce length N itself, which is what the RFC layout adds up to
+                up = sl.upper
+                okp = (kit._is_len(up) and kit.same_val(up.args[0], comp)) or N.poly(up) == Poly.atom("N")
+            ctx.ob("the common IV is cut to the length of the components from its start", bool(okp), fi, r, detail="common IV operand: %s" % kit.txt(s)[:80],
+                   construct="self.common_iv[:len(components)]")
+        got = _layout(_concat_operands(comp), N)
+        ctx.ob("nonce components = len(ID) | 0-pad to N-6-len(ID) | ID | 0-pad to 5-len(PIV) | PIV (RFC 8613 section 5.2)", got == want, fi, r,
                detail="layout: %r" % (got,), construct="nonce components")
     xf = prog.func("oscore._xor_bytes")
     xp = params(xf, skip_self=False)
-    xr = [n for n in walk_no_nested(xf.node) if isinstance(n, ast.Return)]
-    okx = len(xp) == 2 and len(xr) == 1 and any(
-        match("bytes($x ^ $y for ($x, $y) in zip(%s, %s))" % (a, b2), xr[0].value) is not None for a, b2 in ((xp[0], xp[1]), (xp[1], xp[0])))
-    ctx.ob("_xor_bytes is the byte-wise XOR of its two arguments", okx, xf, xr[0] if xr else xf.node)
+    xr = [q for q in kit.Runner(xf, prog).paths() if q.end in ("return", "fall")]
+    okx = len(xp) == 2 and bool(xr) and all(q.end == "return" and _bytewise_xor(q.value, xp[0], xp[1]) for q in xr)
+    ctx.ob("_xor_bytes is the byte-wise XOR of its two arguments", okx, xf, xr[0].endnode if xr and xr[0].endnode is not None else xf.node, construct="_xor_bytes(a, b)")
     # fresh partial IV
     bf = prog.func(CP + "_build_new_nonce")
     bp = params(bf)
-    bfl = Flow(prog, bf)
-    brets = [n for n in walk_no_nested(bf.node) if isinstance(n, ast.Return)]
-    ctx.floor("returns of _build_new_nonce", len(brets), 1)
-    for r in brets:
-        ctx.need(isinstance(r.value, ast.Tuple) and len(r.value.elts) == 2, "_build_new_nonce does not return a pair")
-        rn = bfl.node_of(r)
-        call = resolve_local(bf.node, r.value.elts[0])
-        b0 = match("self._construct_nonce($p, $i, $a)", call)
-        ctx.need(b0 is not None, "_build_new_nonce does not return a _construct_nonce(...) result first")
-        full = resolve_local(bf.node, b0["p"])
-        bb = match("$n.to_bytes(%d, 'big')" % PIV_BYTES, full)
-        seq = _prim(bfl.src(bb["n"], rn)) if bb else set()
-        ctx.ob("a fresh partial IV is the new sequence number as %d big-endian bytes" % PIV_BYTES, bb is not None and seq == {(("self",), ".new_sequence_number()", True)}, bf, full,
-               detail="sources: %s" % fmt_leaves(seq))
-        ctx.ob("a fresh nonce is built for the own sender ID and the given algorithm", chain(b0["i"]) == "self.sender_id" and isinstance(b0["a"], ast.Name) and b0["a"].id == bp[0], bf, call)
-        short = resolve_local(bf.node, r.value.elts[1])
-        bs = match("$v.lstrip(b'\\x00') or b'\\x00'", short)
-        ctx.ob("the partial IV sent is the same value without leading zero bytes (one zero byte for 0)", bs is not None and same(resolve_local(bf.node, bs["v"]), full), bf, short)
+    cparams = params(fi)
+    brets = [q for q in kit.Runner(bf, prog).paths() if q.end in ("return", "fall")]
+    ctx.floor("returning paths of _build_new_nonce", len(brets), 1)
+    kinds = set()
+    for q in brets:
+        v, r = q.value, q.endnode
+        ctx.need(q.end == "return" and isinstance(v, ast.Tuple) and len(v.elts) == 2, "_build_new_nonce does not return a pair")
+        call = v.elts[0]
+        ok = isinstance(call, ast.Call) and isinstance(call.func, ast.Attribute) and call.func.attr == "_construct_nonce" and chain(call.func.value) == "self"
+        ctx.need(ok, "_build_new_nonce does not return a _construct_nonce(...) result first")
+        bound = dict(zip(cparams, call.args))
+        bound.update({k.arg: k.value for k in call.keywords if k.arg})
+        ctx.need(set(bound) == set(cparams) and len(call.args) <= 3, "_construct_nonce call with unexpected arguments")
+        full, ident, algo = (bound[x] for x in cparams)
+        tb = _to_bytes_view(full)
+        okb = tb is not None and tb[1] == PIV_BYTES and tb[2] == "big" and match("self.new_sequence_number()", tb[0]) is not None
+        ctx.ob("a fresh partial IV is the new sequence number as %d big-endian bytes" % PIV_BYTES, okb, bf, r,
+               detail="partial IV handed to _construct_nonce: %s" % kit.txt(full)[:80], construct="partial_iv = new_sequence_number().to_bytes(5, 'big')")
+        ctx.ob("a fresh nonce is built for the own sender ID and the given algorithm", chain(ident) == "self.sender_id" and isinstance(algo, ast.Name) and algo.id == bp[0], bf, r,
+               detail="arguments: %s, %s" % (kit.txt(ident)[:40], kit.txt(algo)[:40]), construct="_construct_nonce(partial_iv, self.sender_id, alg)")
+        short = v.elts[1]
+
+        def stripped(e):
+            return isinstance(e, ast.Call) and isinstance(e.func, ast.Attribute) and e.func.attr == "lstrip" and len(e.args) == 1 and not e.keywords \
+                and isinstance(e.args[0], ast.Constant) and e.args[0].value == b"\0" and kit.same_val(e.func.value, full)
+
+        def decided(truthy):
+            for cnd, out, _ in q.conds:
+                tv = kit.truth_view(cnd, out)
+                if tv is not None and stripped(tv[0]) and tv[1] == truthy:
+                    return True
+            return False
+
+        if stripped(short):
+            # returned as is: either unconditionally (then the `zero` case below is missing) or on the path on which it is non-empty
+            okk = decided(True) or not any(stripped(kit.truth_view(cnd, out)[0]) for cnd, out, _ in q.conds if kit.truth_view(cnd, out) is not None)
+            kinds.add("stripped")
+        elif isinstance(short, ast.Constant) and short.value == b"\0":
+            okk = decided(False)
+            kinds.add("zero")
+        else:
+            recognisable = isinstance(short, ast.Constant) or kit.same_val(short, full) or (
+                isinstance(short, ast.Call) and isinstance(short.func, ast.Attribute) and kit.same_val(short.func.value, full))
+            ctx.need(recognisable, "_build_new_nonce: the short partial IV is computed in a way the rule cannot interpret: %s" % kit.txt(short)[:80])
+            okk = False
+        ctx.ob("the partial IV sent is the same value without leading zero bytes (one zero byte for 0)", okk, bf, r,
+               detail="second result %s on the path [%s]" % (kit.txt(short)[:60], _describe(q)), construct="partial_iv.lstrip(b'\\0') or b'\\0'")
+    ctx.ob("the partial IV sent is the same value without leading zero bytes (one zero byte for 0)", kinds == {"stripped", "zero"}, bf, bf.node,
+           detail="cases found: %s" % sorted(kinds), construct="short partial IV: stripped / single zero byte")
 
 
 # ---------------------------------------------------------------------------
@@ -1032,300 +1374,190 @@ def c(ctx):
 # value = flag | PIV (n bytes) | [s (1 byte) | kid context (s bytes)] if h | [kid (rest)] if k; empty when the flag byte is zero.
 REF_FLAGS = {"COMPRESSION_BITS_N": 0b111, "COMPRESSION_BIT_K": 0b1000, "COMPRESSION_BIT_H": 0b10000, "COMPRESSION_BITS_RESERVED": 0b11000000}
 REF_GROUP_BIT = ("COMPRESSION_BIT_GROUP", 0b100000)
-REF_OPTION = [
-    (0b111, [("COSE_PIV", "flagbits")]),
-    (0b10000, [("len",), ("COSE_KID_CONTEXT", "lenbyte")]),
-    (0b1000, [("COSE_KID", "rest")]),
-]
 MAX_CONTEXT = 255
+K_PIV, K_KID, K_CTX, K_GRP = "COSE_PIV", "COSE_KID", "COSE_KID_CONTEXT", "COSE_COUNTERSIGNATURE0"
+OPTION_KEYS = (K_PIV, K_KID, K_CTX, K_GRP)
 
 
-def _const_int(e, consts):
-    try:
-        v = norm.consteval(e, consts)
-    except norm.NormError:
-        return None
-    return v if isinstance(v, int) and not isinstance(v, bool) else None
+def _describe(path):
+    return "; ".join("%s%s" % ("" if o else "not ", kit.txt(c)[:60]) for c, o, _ in path.conds if not isinstance(c, ast.Constant)) or "<unconditional>"
 
 
-def _flag_mask(fn, test, flagvars, consts, P):
-    """int mask for `flag & CONST`, 'nonempty' for tests of the option being empty, else None."""
-    m, _ = _flag_cond(fn, test, True, flagvars, consts, P)
-    return m
+def _cache(prog):
+    """per-Program memo (kept on the Program object itself: an id()-keyed module dict could hand the results of a collected
+    Program to a new one that happens to get the same address, e.g. between seeds of the self-test)"""
+    c = getattr(prog, "_c11_cache", None)
+    if c is None:
+        c = {}
+        setattr(prog, "_c11_cache", c)
+    return c
 
 
-def _flag_cond(fn, test, pol, flagvars, consts, P):
-    """(mask, polarity) of a test on flag bits: `flag & C`, `n` with n = flag & C, `n != 0`, `n == 0`, `n > 0`."""
-    t = resolve_local(fn, test)
-    if isinstance(t, ast.Compare) and len(t.ops) == 1 and isinstance(t.comparators[0], ast.Constant) and t.comparators[0].value == 0 \
-            and isinstance(t.ops[0], (ast.Eq, ast.NotEq, ast.Gt)):
-        inner = _flag_cond(fn, t.left, pol if not isinstance(t.ops[0], ast.Eq) else (not pol), flagvars, consts, P)
-        if isinstance(inner[0], int):
-            return inner
-    if isinstance(t, ast.BinOp) and isinstance(t.op, ast.BitAnd):
-        for f, c in ((t.left, t.right), (t.right, t.left)):
-            if isinstance(f, ast.Name) and f.id in flagvars:
-                return _const_int(c, consts), pol
-    if isinstance(t, ast.Name) and t.id == P:
-        return "nonempty", pol
-    if isinstance(t, ast.Compare) and len(t.ops) == 1 and {chain(t.left), chain(t.comparators[0])} & {P}:
-        return "nonempty", pol
-    if isinstance(t, ast.Call) and chain(t.func) == "len" and len(t.args) == 1 and chain(t.args[0]) == P:
-        return "nonempty", pol
-    if isinstance(t, ast.Name) and t.id in flagvars:
-        return "nonempty", pol
-    return None, pol
-
-
-def _is_validation_guard(cfg, pid):
-    """The branch outcome pid is the surviving side of a test whose other side never returns normally."""
-    tests = [p for p, lab in cfg.pred[pid] if lab in ("T", "F")]
-    if len(tests) != 1:
-        return False
-    sib = [s for s, lab in cfg.succ[tests[0]] if lab in ("T", "F") and s != pid]
-    return bool(sib) and all(cfg.exit not in cfg.reach({s}, skip_labels=("exc",), include_src=True) for s in sib)
-
-
-def _reader_layout(ctx, prog, fi, consts):
-    fn = fi.node
-    fl = Flow(prog, fi)
-    cfg = fl.cfg
-    pn = params(fi)
-    ctx.need(len(pn) == 2, "_uncompress signature changed")
-    P = pn[0]
-    ctx.need(not [d for d in fl.defs if d.name == P and d.kind != "param"], "_uncompress rebinds the option parameter")
-
-    def sub_of(e, names):
-        return isinstance(e, ast.Subscript) and isinstance(e.value, ast.Name) and e.value.id in names
-
-    flagvars = {d.name for d in fl.defs if d.kind == "assign" and sub_of(d.value, {P}) and isinstance(d.value.slice, ast.Constant) and d.value.slice.value == 0}
-    ctx.need(len(flagvars) == 1, "_uncompress: the flag byte is not read as <option>[0] into one local")
-    for d in fl.defs:
-        if d.name in flagvars and not (sub_of(d.value, {P}) or (isinstance(d.value, ast.Constant) and d.value.value == 0)):
-            raise AnalysisError("C11.d: the flag byte local has a definition the rule cannot interpret: %s" % stmt_text(d.stmt))
-
-    def tail_from(e, names):
-        return sub_of(e, names) and isinstance(e.slice, ast.Slice) and e.slice.upper is None and e.slice.step is None and e.slice.lower is not None
-
-    cursors = {d.name for d in fl.defs if d.kind == "assign" and tail_from(d.value, {P}) and _const_int(d.value.slice.lower, consts) == 1}
-    ctx.need(len(cursors) == 1, "_uncompress: no single cursor local initialised as <option>[1:]")
-    events = []
-    used = set()
-    for d in fl.defs:
-        if d.name in cursors:
-            if d.kind == "assign" and tail_from(d.value, {P}):
-                events.append({"k": "adv", "nid": d.nid, "n": d.value.slice.lower, "node": d.stmt, "init": True})
-            elif d.kind == "assign" and tail_from(d.value, cursors):
-                events.append({"k": "adv", "nid": d.nid, "n": d.value.slice.lower, "node": d.stmt, "init": False})
-            else:
-                raise AnalysisError("C11.d: cursor update outside the rule's idioms: %s" % stmt_text(d.stmt))
-            used.add(id(d.value))
-        elif d.kind == "assign" and sub_of(d.value, cursors) and not isinstance(d.value.slice, ast.Slice):
-            i = _const_int(d.value.slice, consts)
-            ctx.need(i is not None, "_uncompress: non-constant index into the cursor")
-            events.append({"k": "idx", "nid": d.nid, "name": d.name, "i": i, "node": d.stmt})
-            used.add(id(d.value))
-    rets = [n for n in walk_no_nested(fn) if isinstance(n, ast.Return)]
-    ctx.need(len(rets) >= 1 and all(isinstance(r.value, ast.Tuple) and len(r.value.elts) == 4 for r in rets), "_uncompress does not return a 4-tuple")
-    dicts = {r.value.elts[2].id for r in rets if isinstance(r.value.elts[2], ast.Name)}
-    ctx.need(len(dicts) == 1, "_uncompress: the unprotected map is not one local")
-    U = next(iter(dicts))
-    flagonly = {}
-    for root, path, val, nid, stmt, kind in fl.stores:
-        if root != U or kind != "store":
-            continue
-        tgt = stmt.targets[0] if isinstance(stmt, ast.Assign) and len(stmt.targets) == 1 else None
-        key = _cose_key(prog, fi, tgt.slice) if isinstance(tgt, ast.Subscript) else None
-        ctx.need(key is not None, "_uncompress: store into the unprotected map that is not map[COSE_*] = value")
-        v = val
-        while isinstance(v, ast.Name) and v.id not in cursors:
-            ds = fl.reaching(v.id, nid)
-            if len(ds) != 1 or ds[0].kind != "assign":
-                break
-            v, nid = ds[0].value, ds[0].nid  # the field is cut where the local is defined
-        if sub_of(v, cursors) and isinstance(v.slice, ast.Slice) and v.slice.step is None and v.slice.upper is not None:
-            events.append({"k": "read", "nid": nid, "key": key, "lo": v.slice.lower, "hi": v.slice.upper, "node": stmt})
-            used.add(id(v))
-        elif isinstance(v, ast.Name) and v.id in cursors:
-            events.append({"k": "rest", "nid": nid, "key": key, "node": stmt})
-            used.add(id(v))
-        elif any(isinstance(x, ast.Name) and x.id in cursors for x in ast.walk(v)):
-            raise AnalysisError("C11.d: field extraction outside the rule's idioms: %s" % stmt_text(stmt))
-        else:
-            flagonly[key] = nid
-    # every other use of the cursor must be a test
-    for x in walk_no_nested(fn):
-        if isinstance(x, ast.Name) and x.id in cursors and isinstance(x.ctx, ast.Load):
-            par = cfg.parent.get(id(x))
-            if id(par) in used or id(x) in used:
-                continue
-            locs = cfg.locate(x)
-            if locs and cfg.nodes[locs[0]].kind == "test":
-                continue
-            if any(isinstance(s, ast.Assign) and s.value is x for s in [cfg.nodes[l].ast for l in locs]):
-                continue  # plain copy, resolved through resolve_local above
-            raise AnalysisError("C11.d: the cursor is used in a way the rule cannot interpret: %s" % stmt_text(cfg.nodes[locs[0]].ast if locs else x))
-    # layout guards
-    def mask_of(nid):
-        ms = []
-        for test, pol, pid in cfg.guards(nid):
-            if _is_validation_guard(cfg, pid):
-                continue
-            m, epol = _flag_cond(fn, test, pol, flagvars, consts, P)
-            if m == "nonempty":
-                continue
-            if m is None or epol is not True:
-                raise AnalysisError("C11.d: _uncompress: layout depends on a condition the rule cannot interpret: %s" % stmt_text(test))
-            ms.append(m)
-        return ms
-    for ev in events:
-        ms = mask_of(ev["nid"])
-        if ev.get("init"):
-            ctx.need(not ms, "_uncompress: the flag byte is skipped only conditionally")
-            ev["mask"] = 0
-        else:
-            ctx.need(len(ms) == 1, "_uncompress: a field is read under %d flag conditions" % len(ms))
-            ev["mask"] = ms[0]
-    nids = {ev["nid"] for ev in events}
-    for ev in events:
-        ev["after"] = len(cfg.reach({ev["nid"]}) & nids)
-        ctx.need(ev["nid"] not in cfg.reach({ev["nid"]}), "_uncompress: field extraction inside a loop")
-    events.sort(key=lambda ev: -ev["after"])
-    for x, y in zip(events, events[1:]):
-        ctx.need(y["nid"] in cfg.reach({x["nid"]}) and x["nid"] not in cfg.reach({y["nid"]}), "_uncompress: extraction steps are not totally ordered")
-    env = {k: v for k, v in norm.local_env(fn).items() if k not in {e["name"] for e in events if e["k"] == "idx"} and k not in cursors}
-    N = Normalizer(env=env, penv={k: Poly.const(v) for k, v in consts.items()})
-    blocks = []
-    tiling = []
-    for ev in events:
-        if ev.get("init"):
-            ctx.need(_const_int(ev["n"], consts) == 1, "the reader does not skip exactly the flag byte")
-            continue
-        if not blocks or blocks[-1]["mask"] != ev["mask"]:
-            ctx.need(all(b["mask"] != ev["mask"] for b in blocks), "_uncompress: steps for one flag are not contiguous")
-            blocks.append({"mask": ev["mask"], "rel": Poly.const(0), "spans": [], "items": [], "lens": {}, "first": ev["node"]})
-        b = blocks[-1]
-        if ev["k"] == "adv":
-            b["rel"] = b["rel"] + N.poly(ev["n"])
-        elif ev["k"] == "idx":
-            b["spans"].append((b["rel"] + Poly.const(ev["i"]), b["rel"] + Poly.const(ev["i"] + 1)))
-            b["items"].append(("len",))
-            b["lens"][ev["name"]] = True
-        elif ev["k"] == "read":
-            lo = N.poly(ev["lo"]) if ev["lo"] is not None else Poly.const(0)
-            b["spans"].append((b["rel"] + lo, b["rel"] + N.poly(ev["hi"])))
-            length = N.poly(ev["hi"]) - lo
-            if any(length == Poly.atom(nm) for nm in b["lens"]):
-                kind = "lenbyte"
-            elif any(length == N.poly(ast.parse("%s & %d" % (fv, ev["mask"]), mode="eval").body) for fv in flagvars):
-                kind = "flagbits"
-            else:
-                kind = "expr:%r" % (length,)
-            b["items"].append((ev["key"], kind))
-        else:
-            b["spans"].append((b["rel"], None))
-            b["items"].append((ev["key"], "rest"))
-    for i, b in enumerate(blocks):
-        ok = bool(b["spans"]) and b["spans"][0][0] == Poly.const(0)
-        for (s0, e0), (s1, e1) in zip(b["spans"], b["spans"][1:]):
-            ok = ok and e0 is not None and e0 == s1
-        last = b["spans"][-1][1] if b["spans"] else None
-        if last is None:
-            ok = ok and i == len(blocks) - 1
-        else:
-            ok = ok and last == b["rel"]
-        tiling.append((b, ok))
-    return [(b["mask"], b["items"]) for b in blocks], tiling, flagonly, flagvars, U, fl
-
-
-def _writer_layout(ctx, prog, fi, consts):
-    fn = fi.node
-    fl = Flow(prog, fi)
-    cfg = fl.cfg
-    pn = params(fi)
+def _writer_results(ctx, prog, consts):
+    """Run _compress symbolically (kit.OptionWriter): on every path the set of fields present in the unprotected map is
+    decided, and the option value returned is compared with the RFC 8613 section 6.1 encoding of exactly those fields.
+    The comparison is on values (flag byte = (len(PIV), or-ed bits), sequence of byte-string parts), so the order of the
+    statements, the way presence is tested (`in`, pop with default, try/except KeyError, get), how the flag is accumulated
+    (`|=`, `= .. | ..`, `+`) and where the option is put together (one expression, named segments, early return) are immaterial."""
+    if "writer" in _cache(prog):
+        return _cache(prog)["writer"]
+    wf = prog.func(CP + "_compress")
+    pn = params(wf)
     ctx.need(len(pn) == 3, "_compress signature changed")
     U = pn[1]
-    rets = [n for n in walk_no_nested(fn) if isinstance(n, ast.Return)]
-    ctx.need(rets and all(isinstance(r.value, ast.Tuple) and len(r.value.elts) == 2 for r in rets), "_compress does not return a pair")
-    res = {"concats": [], "empties": [], "U": U, "fl": fl}
-
-    def dict_key(e, nid):
-        ts = fl.terminals(e, nid)
-        if len(ts) != 1 or not isinstance(ts[0][0], ast.AST):
-            return None, None
-        t = ts[0][0]
-        if isinstance(t, ast.Call) and isinstance(t.func, ast.Attribute) and chain(t.func.value) == U and t.func.attr in ("pop", "get") and t.args:
-            return _cose_key(prog, fi, t.args[0]), t
-        if isinstance(t, ast.Subscript) and chain(t.value) == U:
-            return _cose_key(prog, fi, t.slice), t
-        return None, None
-
-    def in_key(conds, pol):
-        b = cond_has(fn, conds, "$k in %s" % U, pol)
-        return _cose_key(prog, fi, b["k"]) if b else None
-
-    for r in rets:
-        for t, tn, conds in fl.terminals(r.value.elts[0], fl.node_of(r)):
-            if isinstance(t, ast.Constant) and t.value == b"":
-                res["empties"].append((t, tn, conds))
+    W = kit.OptionWriter(wf, prog, consts, U, lambda e: _cose_key(prog, wf, e))
+    paths = W.paths()
+    rets = [p for p in paths if p.end == "return"]
+    ctx.need(bool(rets) and not [p for p in paths if p.end in ("fall", "cut")], "_compress has paths that do not end in return or raise")
+    nmask = REF_FLAGS["COMPRESSION_BITS_N"]
+    bit = {K_KID: REF_FLAGS["COMPRESSION_BIT_K"], K_CTX: REF_FLAGS["COMPRESSION_BIT_H"], K_GRP: REF_GROUP_BIT[1]}
+    res = {"fi": wf, "layout": [], "undecided": [], "piv_limit": [], "ctx_limit": [], "covered": set(), "n": len(rets), "node": rets[0].endnode}
+    for p in rets:
+        st = p.state
+        v = p.value
+        ctx.need(isinstance(v, ast.Tuple) and len(v.elts) == 2, "_compress does not return a pair")
+        had = st["had"]
+        und = [k for k in OPTION_KEYS if k not in had]
+        if und:
+            res["undecided"].append((p, "presence of %s is never looked at on the path [%s]" % (", ".join(und), _describe(p))))
+            continue
+        res["covered"].add(tuple(had[k] for k in OPTION_KEYS))
+        lenpiv = Poly.atom("len(%s%s)" % (kit.FIELD_PREFIX, K_PIV))
+        lenctx = Poly.atom("len(%s%s)" % (kit.FIELD_PREFIX, K_CTX))
+        base = lenpiv if had[K_PIV] else Poly.const(0)
+        mask = sum(b for k, b in bit.items() if had[k])
+        facts = st["nf"]
+        zero = False
+        if mask == 0:
+            if not had[K_PIV] or kit.nf_lt(base - Poly.const(1)) in facts:
+                zero = True
+            elif kit.nf_lt(-base) not in facts:
+                res["layout"].append((p, "the option is not left empty when the flag byte is zero (an empty partial IV is the only field): [%s]" % _describe(p)))
                 continue
-            ctx.need(isinstance(t, ast.AST), "_compress: option value defined in a way the rule cannot interpret")
-            ops = _flatten_add(t, {})
-            fb = _single_byte_of(ops[0])
-            ctx.need(isinstance(fb, ast.Name), "_compress: the option does not start with bytes([flag])")
-            blocks = []
-            for pos, op in enumerate(ops[1:]):
-                alts = fl.terminals(op, tn)
-                blk = {"op": op, "key": None, "items": None, "empties": [], "node": None, "lenexpr": None, "cond": None, "last": pos == len(ops) - 2}
-                for at, an, ac in alts:
-                    if isinstance(at, ast.Constant) and at.value == b"":
-                        blk["empties"].append(in_key(ac, False) if in_key(ac, True) is None else "although %s present" % in_key(ac, True))
-                        continue
-                    ctx.need(isinstance(at, ast.AST), "_compress: option segment defined in a way the rule cannot interpret")
-                    items = []
-                    for so in _flatten_add(at, {}):
-                        sb = _single_byte_of(so)
-                        if sb is not None:
-                            lt = fl.terminals(sb, an)
-                            le = lt[0][0] if len(lt) == 1 and isinstance(lt[0][0], ast.AST) else None
-                            k = None
-                            if isinstance(le, ast.Call) and chain(le.func) == "len" and len(le.args) == 1:
-                                k, _ = dict_key(le.args[0], lt[0][1])
-                            items.append(("len", k))
-                            blk["lenexpr"] = sb
-                        else:
-                            k, call = dict_key(so, an)
-                            items.append(("field", k, call))
-                    ctx.need(blk["items"] is None, "_compress: an option segment has two non-empty definitions")
-                    blk["items"], blk["node"], blk["cond"], blk["nid"] = items, at, in_key(ac, True), an
-                ctx.need(blk["items"] is not None, "_compress: an option segment is always empty")
-                blocks.append(blk)
-            res["concats"].append({"expr": t, "nid": tn, "flag": fb.id, "blocks": blocks, "conds": conds})
-    ctx.need(len(res["concats"]) == 1, "_compress: %d option concatenations" % len(res["concats"]))
-    F = res["concats"][0]["flag"]
-    res["bits"] = {}
-    res["base"] = None
-    for d in fl.defs:
-        if d.name != F:
-            continue
-        if d.kind == "aug" and isinstance(d.stmt.op, ast.BitOr):
-            m = _const_int(d.value, consts)
-        elif d.kind == "assign" and isinstance(d.value, ast.BinOp) and isinstance(d.value.op, ast.BitOr) and isinstance(d.value.left, ast.Name) and d.value.left.id == F:
-            m = _const_int(d.value.right, consts)
-        elif d.kind == "assign" and isinstance(d.value, ast.Call) and chain(d.value.func) == "len" and len(d.value.args) == 1:
-            ctx.need(res["base"] is None, "_compress: two base definitions of the flag byte")
-            res["base"] = (d, dict_key(d.value.args[0], d.nid)[0])
-            continue
-        else:
-            raise AnalysisError("C11.d: _compress: flag byte definition outside the rule's idioms: %s" % stmt_text(d.stmt))
-        ctx.need(m is not None, "_compress: flag bit is not a module constant")
-        k = in_key(tuple(guard_exprs(cfg, d.nid)), True)
-        res["bits"].setdefault(k, []).append((m, d))
-    ctx.need(res["base"] is not None, "_compress: the flag byte does not start as len(<partial IV>)")
+        want = []
+        if not zero:
+            want.append(("byte", (base, mask)))
+            if had[K_PIV]:
+                want.append(("field", K_PIV))
+            if had[K_CTX]:
+                want += [("byte", (lenctx, 0)), ("field", K_CTX)]
+            if had[K_KID]:
+                want.append(("field", K_KID))
+        got = kit.byte_parts(v.elts[0])
+        ctx.need(got is not None, "_compress: the option value is not a concatenation the rule can interpret: %s" % kit.txt(v.elts[0])[:100])
+        shown = []
+        for g in got:
+            if g[0] == "byte":
+                fv = W.flagval(g[1])
+                shown.append(("byte", fv if fv is not None else kit.txt(g[1])))
+            else:
+                shown.append(g)
+        if shown != want:
+            res["layout"].append((p, "fields present: %s; emitted %r, RFC 8613 wants %r" % ([k for k in OPTION_KEYS if had[k]], shown, want)))
+        if had[K_PIV] and not zero and not kit.entails_lt0(facts, lenpiv - Poly.const(nmask + 1)):
+            res["piv_limit"].append((p, "known on the path: %s" % sorted(map(repr, facts))))
+        if had[K_CTX] and not kit.entails_lt0(facts, lenctx - Poly.const(MAX_CONTEXT + 1)):
+            res["ctx_limit"].append((p, "known on the path: %s" % sorted(map(repr, facts))))
+    _cache(prog)["writer"] = res
     return res
 
 
-@R.clause("C11.d", "OSCORE option compression: flag constants, writer layout of _compress, reader layout of _uncompress and RFC 8613 section 6.1 agree; reserved bits refused")
+def _reader_results(ctx, prog, consts):
+    """Run _uncompress symbolically (kit.OptionReader): every slice of the option is a window (lo, hi) of its bytes, every
+    flag test a decision on `B[0] & mask`.  On every returning path the map of fields returned is compared with the RFC 8613
+    section 6.1 decoding under the flag bits decided on that path: PIV = bytes 1..1+n, [s = next byte, kid context = the s
+    bytes after it] if h, [kid = the rest] if k.  Whether a cursor local is advanced or absolute offsets are used, whether
+    fields are cut before or after the cursor moves, tuple assignments, named flag tests and merged checks are immaterial."""
+    if "reader" in _cache(prog):
+        return _cache(prog)["reader"]
+    rf = prog.func(CU + "_uncompress")
+    pn = params(rf)
+    ctx.need(len(pn) == 2, "_uncompress signature changed")
+    P, payload = pn
+    Rd = kit.OptionReader(rf, prog, consts, P)
+    paths = Rd.paths()
+    rets = [p for p in paths if p.end == "return"]
+    ctx.need(bool(rets) and not [p for p in paths if p.end in ("fall", "cut")], "_uncompress has paths that do not end in return or raise")
+    resv = REF_FLAGS["COMPRESSION_BITS_RESERVED"]
+    res = {"fi": rf, "layout": [], "reserved_ret": [], "reserved_raise": [], "n_reserved_raise": 0, "shape": [], "bounds": [], "bounded_fields": set(), "n": len(rets),
+           "node": rets[0].endnode}
+
+    def flag(st, m):
+        if st["empty"] is True:
+            return False
+        a = Poly.atom("B[0]&%d" % m)
+        if kit.nf_lt(-a) in st["int_facts"]:
+            return True
+        if kit.nf_lt(a - Poly.const(1)) in st["int_facts"]:
+            return False
+        return None
+
+    for p in paths:
+        if p.end == "raise" and flag(p.state, resv) is True:
+            res["n_reserved_raise"] += 1
+            rz = p.endnode
+            cls = qn(prog, rf, rz.exc.func if isinstance(rz.exc, ast.Call) else rz.exc) if isinstance(rz, ast.Raise) and rz.exc is not None else None
+            if not (cls is not None and cls in prog.classes and prog.is_subclass(cls, "aiocoap.oscore.DecodeError")):
+                res["reserved_raise"].append((p, "class %s" % cls))
+    for p in rets:
+        st = p.state
+        Rd.state = st
+        v = p.value
+        ctx.need(isinstance(v, ast.Tuple) and len(v.elts) == 4, "_uncompress does not return a 4-tuple")
+        e0, e1, dd, e3 = v.elts
+        if not (isinstance(e0, ast.Constant) and e0.value == b"" and isinstance(e1, ast.Dict) and not e1.keys and isinstance(e3, ast.Name) and e3.id == payload):
+            res["shape"].append((p, kit.txt(v)[:100]))
+        ctx.need(isinstance(dd, ast.Dict) and all(k is not None for k in dd.keys), "_uncompress: the map of unprotected fields is not built by stores the rule can follow: %s" % kit.txt(dd)[:80])
+        if flag(st, resv) is not False:
+            res["reserved_ret"].append((p, _describe(p)))
+            continue
+        fl = {m: flag(st, m) for m in (REF_FLAGS["COMPRESSION_BITS_N"], REF_FLAGS["COMPRESSION_BIT_H"], REF_FLAGS["COMPRESSION_BIT_K"], REF_GROUP_BIT[1])}
+        und = [bin(m) for m, t in fl.items() if t is None]
+        if und:
+            res["layout"].append((p, "flag bits %s are not looked at on the path [%s]" % (", ".join(und), _describe(p))))
+            continue
+        exp = {}
+        off = Poly.const(1)
+        if fl[REF_FLAGS["COMPRESSION_BITS_N"]]:
+            n = Poly.atom("B[0]&%d" % REF_FLAGS["COMPRESSION_BITS_N"])
+            exp[K_PIV] = (off, off + n)
+            off = off + n
+        if fl[REF_FLAGS["COMPRESSION_BIT_H"]]:
+            s = Poly.atom("B[%r]" % (off,))
+            exp[K_CTX] = (off + Poly.const(1), off + Poly.const(1) + s)
+            off = off + Poly.const(1) + s
+        if fl[REF_FLAGS["COMPRESSION_BIT_K"]]:
+            exp[K_KID] = (off, None)
+        if fl[REF_GROUP_BIT[1]]:
+            exp[K_GRP] = "present"
+        got = {}
+        for k, val in zip(dd.keys, dd.values):
+            name = _cose_key(prog, rf, k)
+            ctx.need(name is not None, "_uncompress: a key of the unprotected map is not a COSE_* constant: %s" % kit.txt(k))
+            if name == K_GRP:
+                got[name] = "present"
+                continue
+            w = Rd.window(val)
+            if w is None:
+                # a value produced by code the executor could not follow (a call that was not expanded) is a refusal, not a verdict
+                opaque = [x for x in ast.walk(val) if isinstance(x, ast.Call) and not kit._is_len(x)]
+                ctx.need(not opaque, "_uncompress: the value stored for %s is computed by a call the rule cannot follow: %s" % (name, kit.txt(val)[:80]))
+            got[name] = w if w is not None else "not a slice of the option: %s" % kit.txt(val)[:60]
+            if w is not None and w[1] is not None:
+                res["bounded_fields"].add(name)
+                if not kit.entails_ge0(st["int_facts"], Rd.LEN - w[1]):
+                    res["bounds"].append((p, "%s = option[%r:%r] without a check that the option has %r bytes; known: %s" % (name, w[0], w[1], w[1], sorted(map(repr, st["int_facts"])))))
+        if got != exp:
+            res["layout"].append((p, "flags %s: returned %r, RFC 8613 wants %r" % ({bin(m): t for m, t in fl.items()}, got, exp)))
+    _cache(prog)["reader"] = res
+    return res
+
+
+def _first(lst):
+    return lst[0][1] if lst else None
+
+
+@R.clause("C11.d", "OSCORE option compression: flag constants, the encoding computed by _compress and the decoding computed by _uncompress both equal RFC 8613 section 6.1 on every path; reserved bits refused")
 def d(ctx):
     prog = ctx.prog
     consts = module_int_consts(prog, "oscore")
@@ -1337,89 +1569,35 @@ def d(ctx):
     nmask = REF_FLAGS["COMPRESSION_BITS_N"]
 
     # ---- writer ------------------------------------------------------------------
-    wf = prog.func(CP + "_compress")
-    W = _writer_layout(ctx, prog, wf, consts)
-    wfl, wcfg = W["fl"], W["fl"].cfg
-    con = W["concats"][0]
-    based, basekey = W["base"]
-    wl = []
-    ctx.ob("the low flag bits carry the length of the partial IV", basekey == "COSE_PIV", wf, based.stmt)
-    Nw = Normalizer(env=norm.local_env(wf.node), penv={k: Poly.const(v) for k, v in consts.items()})
-    want = Nw.negate(Nw.cmp(ast.parse("len(%s) > %d" % (ast.unparse(based.value.args[0]), nmask), mode="eval").body))
-    ctx.ob("a partial IV longer than %d bytes is refused by the writer" % nmask, want in cmp_guard_nf(wcfg, con["nid"], Nw), wf, based.stmt,
-           detail="guards at the concatenation: %s" % sorted(map(repr, cmp_guard_nf(wcfg, con["nid"], Nw))), construct="len(piv) <= COMPRESSION_BITS_N")
-    for blk in con["blocks"]:
-        items = blk["items"]
-        fields = [i for i in items if i[0] == "field"]
-        key = fields[0][1] if len(fields) == 1 else None
-        if blk["cond"] is None and not blk["empties"]:
-            # unconditional segment: the partial IV
-            call = fields[0][2] if fields else None
-            dflt = isinstance(call, ast.Call) and len(call.args) == 2 and isinstance(call.args[1], ast.Constant) and call.args[1].value == b""
-            ctx.ob("the unconditional segment is the partial IV (empty when absent)", key == "COSE_PIV" and len(items) == 1 and dflt, wf, blk["node"])
-            wl.append((nmask, [(key, "flagbits")]))
-            continue
-        bits = W["bits"].get(blk["cond"], [])
-        def region(nid):
-            return {pid for _, _, pid in wcfg.guards(nid) if not _is_validation_guard(wcfg, pid)}
-        together = len(bits) == 1 and region(bits[0][1].nid) == region(blk["nid"])
-        ctx.ob("segment %s is written exactly when its flag bit is set" % key,
-               blk["cond"] is not None and blk["cond"] == key and all(x in (key, None) for x in blk["empties"]) and together, wf, blk["node"],
-               detail="non-empty when %s present, empty when %s absent, bits %s, same branch: %s" % (blk["cond"], blk["empties"], [bin(m) for m, _ in bits], together))
-        mask = bits[0][0] if bits else None
-        if len(items) == 2 and items[0] == ("len", key):
-            wl.append((mask, [("len",), (key, "lenbyte")]))
-            wantl = Nw.negate(Nw.cmp(ast.parse("%s > %d" % (ast.unparse(blk["lenexpr"]), MAX_CONTEXT), mode="eval").body))
-            ctx.ob("a length-prefixed segment longer than %d bytes is refused by the writer" % MAX_CONTEXT, wantl in cmp_guard_nf(wcfg, blk["nid"], Nw), wf, blk["node"],
-                   construct="len(%s) <= %d" % (key, MAX_CONTEXT))
-        elif len(items) == 1 and blk["last"]:
-            wl.append((mask, [(key, "rest")]))
-        else:
-            wl.append((mask, [(key, "unbounded")] if len(items) == 1 else [(i[0], i[1]) for i in items]))
-    extra = {k: v for k, v in W["bits"].items() if k not in {b["cond"] for b in con["blocks"]}}
-    for k, lst in sorted(extra.items(), key=lambda kv: str(kv[0])):
-        for m, dd in lst:
-            ctx.ob("a flag bit without a segment is the group flag", m == REF_GROUP_BIT[1] and k == "COSE_COUNTERSIGNATURE0", wf, dd.stmt)
-    ctx.ob("writer layout = flag | PIV | [s | kid context] | [kid] (RFC 8613 section 6.1)", wl == REF_OPTION, wf, con["expr"], detail="writer: %r" % (wl,),
-           construct="option layout of _compress")
-    for t, tn, conds in W["empties"]:
-        ctx.ob("the option is left empty only when the flag byte is zero (no field is dropped)", cond_has(wf.node, conds, con["flag"], False) is not None, wf, t,
-               construct="option = b'' when flag == 0")
+    W = _writer_results(ctx, prog, consts)
+    wf = W["fi"]
+    ctx.floor("returning paths of _compress", W["n"], 16)
+    ctx.ob("every field of the unprotected map is looked at before the option is emitted (none can be dropped silently)", not W["undecided"], wf, W["node"],
+           detail=_first(W["undecided"]), construct="fields considered by _compress")
+    ctx.ob("every combination of partial IV, kid, kid context and group flag can be encoded", len(W["covered"]) == 16 or bool(W["undecided"]), wf, W["node"],
+           detail="%d of 16 combinations reach a return" % len(W["covered"]), construct="field combinations of _compress")
+    ctx.ob("writer layout = flag | PIV | [s | kid context] | [kid], flag = len(PIV) | k | h | group for exactly the fields present, empty when the flag byte is zero (RFC 8613 section 6.1)",
+           not W["layout"], wf, (W["layout"][0][0].endnode if W["layout"] else W["node"]), detail=_first(W["layout"]), construct="option layout of _compress")
+    ctx.ob("a partial IV longer than %d bytes is refused by the writer" % nmask, not W["piv_limit"], wf, W["node"], detail=_first(W["piv_limit"]),
+           construct="len(piv) <= COMPRESSION_BITS_N")
+    ctx.ob("a length-prefixed segment longer than %d bytes is refused by the writer" % MAX_CONTEXT, not W["ctx_limit"], wf, W["node"], detail=_first(W["ctx_limit"]),
+           construct="len(%s) <= %d" % (K_CTX, MAX_CONTEXT))
 
     # ---- reader -------------------------------------------------------------------
-    rf = prog.func(CU + "_uncompress")
-    rl, tiling, flagonly, flagvars, U, rfl = _reader_layout(ctx, prog, rf, consts)
-    rcfg = rfl.cfg
-    for b, ok in tiling:
-        ctx.ob("the reader consumes the bytes of the segment for flag %s contiguously and completely" % bin(b["mask"]), ok, rf, b["first"],
-               detail="spans %r, advanced %r" % (b["spans"], b["rel"]), construct="segment %s of _uncompress" % bin(b["mask"]))
-    ctx.ob("reader layout = flag | PIV | [s | kid context] | [kid] (RFC 8613 section 6.1)", rl == REF_OPTION, rf, rf.node, detail="reader: %r" % (rl,),
-           construct="option layout of _uncompress")
-    ctx.ob("writer and reader agree on the order and framing of the option fields", rl == wl, rf, rf.node, detail="writer %r / reader %r" % (wl, rl),
-           construct="_compress vs _uncompress")
-    for key, nid in sorted(flagonly.items()):
-        ms = [_flag_mask(rf.node, t, flagvars, consts, params(rf)[0]) for t, pol, pid in rcfg.guards(nid) if not _is_validation_guard(rcfg, pid)]
-        ctx.ob("a flag without a segment is the group flag", key == "COSE_COUNTERSIGNATURE0" and [m for m in ms if m != "nonempty"] == [REF_GROUP_BIT[1]], rf, rcfg.nodes[nid].ast)
-    # reserved bits
-    resv = REF_FLAGS["COMPRESSION_BITS_RESERVED"]
-    rets = [rcfg.loc1(n) for n in walk_no_nested(rf.node) if isinstance(n, ast.Return)]
-    for rn in rets:
-        hit = [(t, pol, pid) for t, pol, pid in rcfg.guards(rn) if _flag_cond(rf.node, t, pol, flagvars, consts, params(rf)[0]) == (resv, False)]
-        ctx.ob("_uncompress returns only when no reserved flag bit is set", bool(hit), rf, rcfg.nodes[rn].ast)
-    raises = [n for n in walk_no_nested(rf.node) if isinstance(n, ast.Raise)]
-    n_res = 0
-    for rz in raises:
-        g = [(t, pol) for t, pol, pid in rcfg.guards(rcfg.loc1(rz)) if _flag_cond(rf.node, t, pol, flagvars, consts, params(rf)[0]) == (resv, True)]
-        if g:
-            n_res += 1
-            cls = qn(prog, rf, rz.exc.func if isinstance(rz.exc, ast.Call) else rz.exc) if rz.exc is not None else None
-            ctx.ob("reserved flag bits are refused with a DecodeError", cls is not None and prog.is_subclass(cls, "aiocoap.oscore.DecodeError"), rf, rz, detail="class %s" % cls)
-    ctx.ob("there is a refusal of reserved flag bits", n_res >= 1, rf, rf.node, construct="reserved bits test of _uncompress")
-    for r in [n for n in walk_no_nested(rf.node) if isinstance(n, ast.Return)]:
-        v = r.value
-        ok = (isinstance(v.elts[0], ast.Constant) and v.elts[0].value == b"" and isinstance(v.elts[1], ast.Dict) and not v.elts[1].keys
-              and rfl.src(v.elts[3], rfl.node_of(r)) == {(("param", params(rf)[1]), "", True)})
-        ctx.ob("_uncompress yields an empty protected map and hands the payload through as the ciphertext", ok, rf, r)
+    Rr = _reader_results(ctx, prog, consts)
+    rf = Rr["fi"]
+    ctx.floor("returning paths of _uncompress", Rr["n"], 16)
+    ctx.ob("reader layout = flag | PIV | [s | kid context] | [kid] (RFC 8613 section 6.1): the fields returned are exactly the windows of the option announced by the flag bits",
+           not Rr["layout"], rf, (Rr["layout"][0][0].endnode if Rr["layout"] else rf.node), detail=_first(Rr["layout"]), construct="option layout of _uncompress")
+    ctx.ob("writer and reader agree on the order and framing of the option fields", not Rr["layout"] and not W["layout"] and not W["undecided"], rf, rf.node,
+           detail=_first(Rr["layout"]) or _first(W["layout"]) or _first(W["undecided"]), construct="_compress vs _uncompress")
+    ctx.ob("_uncompress returns only when no reserved flag bit is set", not Rr["reserved_ret"], rf, (Rr["reserved_ret"][0][0].endnode if Rr["reserved_ret"] else rf.node),
+           detail=_first(Rr["reserved_ret"]), construct="returns of _uncompress vs reserved bits")
+    ctx.ob("reserved flag bits are refused with a DecodeError", not Rr["reserved_raise"], rf, (Rr["reserved_raise"][0][0].endnode if Rr["reserved_raise"] else rf.node),
+           detail=_first(Rr["reserved_raise"]), construct="exception for reserved bits")
+    ctx.ob("there is a refusal of reserved flag bits", Rr["n_reserved_raise"] >= 1, rf, rf.node, construct="reserved bits test of _uncompress")
+    ctx.ob("_uncompress yields an empty protected map and hands the payload through as the ciphertext", not Rr["shape"], rf, (Rr["shape"][0][0].endnode if Rr["shape"] else rf.node),
+           detail=_first(Rr["shape"]), construct="return shape of _uncompress")
 
 
 # ---------------------------------------------------------------------------
@@ -1484,7 +1662,18 @@ def e(ctx):
         own += 1
         ctx.ob("before decryption unprotect itself fails only with ProtectionInvalid", _allowed_exc(prog, esc.cls), fi, stmt_of(fi, pre[0]),
                detail="%s can escape from `%s`" % (esc.cls, esc.text))
-    ctx.floor("raising sites of unprotect before decrypt", own, 8)
+    # anti-vacuity: every `raise` statement of unprotect that lies before the decryption and outside any try body cannot be
+    # caught inside the function, so it must be among the origins enumerated above (merging or splitting checks moves both numbers)
+    def in_try_body(n):
+        while n is not None and n is not fi.node:
+            par = cfg.parent.get(id(n))
+            if isinstance(par, ast.Try) and any(n is x for x in par.body):
+                return True
+            n = par
+        return False
+    uncatchable = [n for n in walk_no_nested(fi.node) if isinstance(n, ast.Raise) and cfg.locate(n) and cfg.is_reachable(cfg.loc1(n))
+                   and not any(cfg.dominates(dn, cfg.loc1(n)) for dn in decs) and not in_try_body(n)]
+    ctx.floor("raising sites of unprotect before decrypt", own, max(3, len(uncatchable)))
     other = sorted({"%s from %s" % (x.cls.split(".")[-1], x.func) for x in escs if x.func != fi.short and not _allowed_exc(prog, x.cls)})
     if other:
         ctx.note("not decided: callees of unprotect other than _extract_encrypted0 can raise %s" % "; ".join(other))
@@ -1504,41 +1693,15 @@ def f(ctx):
     decs = _decrypt_calls(fi)
     ctx.floor("decrypt calls in unprotect", len(decs), 1)
     ctx.ob("there is exactly one decryption site", len(decs) == 1, fi, decs[-1], detail="%d sites" % len(decs))
+    UP = _unprotect_results(ctx, prog)
+    for key, attr, what in (("COSE_KID_CONTEXT", "self.id_context", "ID context"), ("COSE_KID", "self.recipient_id", "key ID")):
+        bad = UP["cmp"][key]
+        ctx.ob("decrypt is reached only when the %s of the OSCORE option equals the context's (mismatch raises)" % what, not bad, fi,
+               (bad[0][0].endnode if bad else decs[0]), detail=_first(bad), construct="%s comparison dominates decrypt" % what)
+    ctx.ob("the ciphertext handed to decrypt is at least tag length + 1 (checked on the value that is decrypted)", not UP["len"], fi,
+           (UP["len"][0][0].endnode if UP["len"] else decs[0]), detail=_first(UP["len"]), construct="minimum length check dominates decrypt")
     for d in decs:
         dn = cfg.loc1(d)
-        guards = cfg.guards(dn)
-        facts = {}
-        for test, pol, pid in guards:
-            t = resolve_local(fi.node, test)
-            if isinstance(t, ast.Compare) and len(t.ops) == 1 and isinstance(t.ops[0], (ast.Eq, ast.NotEq)):
-                for x, y in ((t.left, t.comparators[0]), (t.comparators[0], t.left)):
-                    key = _dict_read(prog, fi, resolve_local(fi.node, x))
-                    if key and chain(y):
-                        equal = isinstance(t.ops[0], ast.Eq) == pol
-                        facts[key] = (chain(y), equal, pid)
-        for key, attr, what in (("COSE_KID_CONTEXT", "self.id_context", "ID context"), ("COSE_KID", "self.recipient_id", "key ID")):
-            got = facts.get(key)
-            ok = got is not None and got[0] == attr and got[1] is True and _is_validation_guard(cfg, got[2])
-            ctx.ob("decrypt is reached only when the %s of the OSCORE option equals the context's (mismatch raises)" % what, ok, fi, d,
-                   detail="fact at decrypt: %r" % (got[:2] if got else None,), construct="%s comparison dominates decrypt" % what)
-        ctx.need(len(d.args) == 4, "decrypt call with unexpected arity")
-        c0 = d.args[0]
-        Nn = Normalizer()
-        if isinstance(c0, ast.Name):
-            want = Nn.negate(Nn.cmp(ast.parse("len(%s) < self.alg_aead.tag_bytes + 1" % c0.id, mode="eval").body))
-            hit = None
-            for test, pol, pid in guards:
-                try:
-                    cf = Nn.cmp(test)
-                except norm.NormError:
-                    continue
-                if (cf if pol else Nn.negate(cf)) == want:
-                    hit = pid
-            fresh = hit is not None and {x.key() for x in fl.reaching(c0.id, dn)} == {x.key() for x in fl.reaching(c0.id, hit)}
-            ctx.ob("the ciphertext handed to decrypt is at least tag length + 1 (checked on the value that is decrypted)", bool(fresh), fi, d,
-                   construct="minimum length check dominates decrypt")
-        else:
-            ctx.ob("the ciphertext handed to decrypt is a checked local", False, fi, d)
         # failures propagate
         p = cfg.parent.get(id(stmt_of(fi, d)))
         tries = []
@@ -1586,8 +1749,11 @@ def g(ctx):
         fi = prog.func(cls + ".decrypt")
         checked.add(fi.qn)
         cfg = cfg_of(fi)
-        lib = [c for c in walk_no_nested(fi.node) if isinstance(c, ast.Call) and isinstance(c.func, ast.Attribute) and c.func.attr == "decrypt"
-               and isinstance(c.func.value, ast.Call) and (qn(prog, fi, c.func.value.func) or "").startswith(LIB_AEAD)]
+        def lib_cipher(e):
+            # the library cipher object: constructed in place or earlier and named (resolved through def-use)
+            e = resolve_local(fi.node, e)
+            return isinstance(e, ast.Call) and (qn(prog, fi, e.func) or "").startswith(LIB_AEAD)
+        lib = [c for c in walk_no_nested(fi.node) if isinstance(c, ast.Call) and isinstance(c.func, ast.Attribute) and c.func.attr == "decrypt" and lib_cipher(c.func.value)]
         ctx.floor("library decrypt calls in %s.decrypt" % cls, len(lib), 1)
         for c in lib:
             st = stmt_of(fi, c)
@@ -1656,45 +1822,38 @@ def h_fields(ctx):
     minimal-length form, so the external AAD no longer depended on the exact PIV bytes of the option and a
     zero-extended PIV still verified; (2) _uncompress checked `not tail` instead of `len(tail) < pivsz` before
     `tail[:pivsz]`, so (thanks to slice tolerance) a flipped length bit announcing more PIV bytes than present went
-    unnoticed.  Necessary conditions decided here: the constructor stores kid and partial_iv parameters unmodified;
-    in _uncompress every slice `X[:n]` with a non-constant n that is stored as a field is dominated by the failing
-    side of `len(X) < n` (or `len(X) - k < n`), whose other side raises DecodeError."""
-    ri = ctx.prog.func("oscore.RequestIdentifiers.__init__")
+    unnoticed.  Necessary conditions decided here, both on symbolically executed paths: on every path through the
+    constructor the value last stored to self.kid / self.partial_iv is the parameter itself; on every returning path of
+    _uncompress each bounded window option[lo:hi] stored as a field is preceded by a decided comparison that implies
+    len(option) >= hi (whatever cursor / offset arithmetic the code uses: kit.OptionReader reduces it to windows of the option)."""
+    prog = ctx.prog
+    ri = prog.func("oscore.RequestIdentifiers.__init__")
     p = params(ri)
+    ctx.need(len(p) >= 2, "RequestIdentifiers.__init__ signature changed")
+    # Every path through the constructor is executed symbolically: the last value stored to self.kid / self.partial_iv must be the
+    # parameter itself (a plain assignment, a tuple assignment, an assignment through a renamed local are the same fact; a
+    # rebound parameter shows up as the rebinding expression, any call or slice applied to it as that expression).
+    rr = kit.Runner(ri, prog)
+    done = [q for q in rr.paths() if q.end in ("return", "fall")]
+    ctx.floor("normal paths through RequestIdentifiers.__init__", len(done), 1)
     for attr, par in (("kid", p[0]), ("partial_iv", p[1])):
-        st = [n for n in walk_no_nested(ri.node) if isinstance(n, ast.Assign) and any(chain(t) == "self." + attr for t in n.targets)]
-        ok = len(st) == 1 and isinstance(st[0].value, ast.Name) and st[0].value.id == par and not writes_to_name(ri.node, par)
-        ctx.ob("RequestIdentifiers keeps the %s exactly as given (it enters the external AAD and the nonce)" % attr, ok, ri, st[0] if st else ri.node,
-               construct=stmt_text(st[0]) if st else "RequestIdentifiers.__init__: %s" % attr)
-    un = ctx.prog.func("oscore.CanUnprotect._uncompress")
-    cfg = cfg_of(un)
-    N = Normalizer()
-    n_checked = 0
-    for st in walk_no_nested(un.node):
-        if not (isinstance(st, ast.Assign) and isinstance(st.value, ast.Subscript) and isinstance(st.value.slice, ast.Slice)):
-            continue
-        sl = st.value.slice
-        if sl.lower is not None or sl.upper is None or isinstance(sl.upper, ast.Constant):
-            continue
-        tb = st.targets[0].value if isinstance(st.targets[0], ast.Subscript) else None
-        if not (isinstance(tb, ast.Name) and any(isinstance(w, ast.Assign) and isinstance(w.value, ast.Dict) for w in writes_to_name(un.node, tb.id))):
-            continue  # not a store into the map of unprotected header fields
-        X = st.value.value
-        if not isinstance(X, ast.Name):
-            continue
-        n_checked += 1
-        nid = cfg.loc1(st)
-        facts = cmp_guard_nf(cfg, nid, N)
-        ln, up = Poly.atom("len(%s)" % X.id), N.poly(sl.upper)
-        ok = False
-        for k in range(0, 3):
-            want = N.negate(("lt", ln - Poly.const(k) - up))
-            if want in facts:
-                # a guard on len(X) - k is only valid if X was shortened by k afterwards; k = 0 is the plain case
-                ok = ok or k == 0 or any(isinstance(w, ast.Assign) and match("%s[%d:]" % (X.id, k), w.value) is not None and cfg.dominates(cfg.loc1(w), nid) for w in writes_to_name(un.node, X.id))
-        ctx.ob("the field cut out of the option is known to be completely present (len check against the announced length)", ok, un, st,
-               detail="guards: %s" % sorted(map(repr, facts)))
-    ctx.floor("length-prefixed fields in _uncompress", n_checked, 2)
+        bad, node, n_st = [], ri.node, 0
+        for q in done:
+            st = [ev for ev in q.events if ev[0] == "store" and isinstance(ev[1], ast.Attribute) and ev[1].attr == attr and chain(ev[1]) == "self." + attr]
+            n_st += len(st)
+            if not st:
+                bad.append("not stored on the path [%s]" % _describe(q))
+            elif not (isinstance(st[-1][2], ast.Name) and st[-1][2].id == par):
+                bad.append("stored value: %s" % kit.txt(st[-1][2])[:80])
+                node = st[-1][3]
+        ctx.ob("RequestIdentifiers keeps the %s exactly as given (it enters the external AAD and the nonce)" % attr, not bad, ri, node,
+               detail=bad[0] if bad else None, construct="RequestIdentifiers.__init__: self.%s = <parameter>" % attr)
+    consts = module_int_consts(prog, "oscore")
+    Rr = _reader_results(ctx, prog, consts)
+    un = Rr["fi"]
+    ctx.ob("the field cut out of the option is known to be completely present (len check against the announced length)", not Rr["bounds"], un,
+           (Rr["bounds"][0][0].endnode if Rr["bounds"] else un.node), detail=_first(Rr["bounds"]), construct="bounds of the fields cut out of the option")
+    ctx.floor("length-prefixed fields in _uncompress", len(Rr["bounded_fields"]), 2)
 
 
 F_OS = "aiocoap/oscore.py"
@@ -1736,3 +1895,17 @@ R.seed("C11.g", F_OS, 'raise ProtectionInvalid("Padding is inconsistent")', 'rai
 
 R.seed("C11.h", F_OS, "        self.partial_iv = partial_iv\n        self.can_reuse_nonce", "        self.partial_iv = partial_iv.lstrip(b\"\\0\") or b\"\\0\"\n        self.can_reuse_nonce", "canonicalised PIV: a zero-extended PIV in the option still verifies")
 R.seed("C11.h", F_OS, "            if len(tail) < pivsz:\n", "            if not tail:\n", "flipped length bits announcing more PIV bytes than present go unnoticed")
+
+# seeds added with the path-wise generalisation of the clauses (each one is invisible to a rule that only looks at the shape of
+# the confirmed code, and must be found by the value / path level reasoning)
+R.seed("C11.a", F_OS, "        if proxy_uri is not None:\n            outer_message.set_request_uri(outer_uri)", "        outer_message.code = message.code\n        if proxy_uri is not None:\n            outer_message.set_request_uri(outer_uri)",
+       "the inner code stored on the outer message after its construction")
+R.seed("C11.b", F_OS, "            external_aad.append(self.id_context)\n", "            external_aad.insert(2, self.id_context)\n", "the ID context pushes the request kid / partial IV out of their AAD positions")
+R.seed("C11.b", F_OS, "        if COSE_PIV not in unprotected:\n", '        if not unprotected.pop(COSE_PIV, b""):\n', "an empty partial IV in the option is consumed and treated like an absent one (the request's nonce inputs are used)")
+R.seed("C11.c", F_OS, '            partial_iv.lstrip(b"\\0") or b"\\0",\n', '            partial_iv.lstrip(b"\\0"),\n', "sequence number 0 yields an empty partial IV")
+R.seed("C11.c", F_OS, "return bytes(_a ^ _b for (_a, _b) in zip(a, b))", "return bytes(_a | _b for (_a, _b) in zip(a, b))", "or instead of xor")
+R.seed("C11.d", F_OS, "            kid_data = unprotected.pop(COSE_KID)\n", '            kid_data = unprotected.pop(COSE_KID) if piv else b""\n', "the kid is dropped (its flag stays set) when there is no partial IV")
+R.seed("C11.d", F_OS, "        if pivsz:\n            if len(tail) < pivsz:", "        if pivsz > 1:\n            if len(tail) < pivsz:", "a one-byte partial IV is not decoded")
+R.seed("C11.f", F_OS, "        if unprotected.pop(COSE_KID, self.recipient_id) != self.recipient_id:", "        if is_response and unprotected.pop(COSE_KID, self.recipient_id) != self.recipient_id:",
+       "the KID is compared for responses only")
+R.seed("C11.h", F_OS, "            if len(tail) - 1 < s:\n", "            if len(tail) < s:\n", "the kid context bound forgets the length byte")
